@@ -34,7 +34,13 @@ trait El: Real + FloatConst + approx::RelativeEq + Add<Output = Self> + Debug + 
     fn eps() -> Q { Q::new(1, 1i128 << Self::EPS_BITS) }
     /// X only: is the value, structurally, the angle token coef*pi (or any zero when coef = 0)?
     fn is_pi_times(self, _coef: Q) -> bool { false }
+    /// the value 2^e, exact in every tier (|e| stays far inside the normal exponent range of the tier)
+    fn pow2(e: i32) -> Self;
+    /// vek's absolute-epsilon guards (LineSegment degeneracy test, Moeller-Trumbore parallel test) compare with
+    /// T::epsilon() / T::default_epsilon() = 2^-GUARD_BITS of the tier (the harness type X answers 2^-52)
+    const GUARD_BITS: u32;
 }
+fn qpow2(e: i32) -> Q { if e >= 0 { Q::int(1i128 << e) } else { Q::new(1, 1i128 << (-e)) } }
 impl El for f64 {
     const NAME: &'static str = "f64";
     const EXACT: bool = false;
@@ -43,6 +49,8 @@ impl El for f64 {
     fn f(self) -> f64 { self }
     fn close(got: f64, want: f64, scale: f64) -> bool { close64(got, want, scale) }
     const EPS_BITS: u32 = 52;
+    fn pow2(e: i32) -> f64 { assert!((-1000..=1000).contains(&e)); f64::from_bits(((1023 + e) as u64) << 52) }
+    const GUARD_BITS: u32 = 52;
 }
 impl El for f32 {
     const NAME: &'static str = "f32";
@@ -52,6 +60,8 @@ impl El for f32 {
     fn f(self) -> f64 { self as f64 }
     fn close(got: f64, want: f64, scale: f64) -> bool { close32(got as f32, want, scale) }
     const EPS_BITS: u32 = 23;
+    fn pow2(e: i32) -> f32 { assert!((-120..=120).contains(&e)); f32::from_bits(((127 + e) as u32) << 23) }
+    const GUARD_BITS: u32 = 23;
 }
 impl El for X {
     const NAME: &'static str = "X";
@@ -62,6 +72,8 @@ impl El for X {
     fn close(_: f64, _: f64, _: f64) -> bool { false }
     const EPS_BITS: u32 = 100;
     fn is_pi_times(self, coef: Q) -> bool { self == X::pi() * X::R(coef) || (coef == Q::ZERO && num_traits::Zero::is_zero(&self)) }
+    fn pow2(e: i32) -> X { X::R(qpow2(e)) }
+    const GUARD_BITS: u32 = 52;
 }
 
 // ---------------------------------------------------------------------------------------------
@@ -143,6 +155,19 @@ fn d2(a: &P3, b: &P3) -> i64 { (0..3).map(|i| (a[i] - b[i]) * (a[i] - b[i])).sum
 fn l1(a: &P3) -> u64 { a.iter().map(|v| v.unsigned_abs()).sum() }
 fn tv<T: El>(v: &P3, den: i64) -> [T; 3] { [T::frac(v[0], den), T::frac(v[1], den), T::frac(v[2], den)] }
 fn is_square(v: i64) -> bool { Q::isqrt(v as i128).is_some() }
+/// the vector v/den * 2^sc (exact in every tier: a small numerator times a power of two)
+fn tvs<T: El>(v: &P3, den: i64, sc: i32) -> [T; 3] { if sc == 0 { return tv::<T>(v, den); } let f = T::pow2(sc); [T::frac(v[0], den) * f, T::frac(v[1], den) * f, T::frac(v[2], den) * f] }
+fn ts<T: El>(n: i64, den: i64, sc: i32) -> T { if sc == 0 { T::frac(n, den) } else { T::frac(n, den) * T::pow2(sc) } }
+/// JSON of coordinates n/den * 2^sc
+fn jps(v: &P3, d: usize, den: i64, sc: i32) -> Value { json!(v[..d].iter().map(|&n| format!("{:?}", Q::new(n as i128, den as i128).mul(qpow2(sc)))).collect::<Vec<_>>()) }
+fn jns(n: i64, den: i64, sc: i32) -> Value { json!(format!("{:?}", Q::new(n as i128, den as i128).mul(qpow2(sc)))) }
+/// additive emission: every violation of a 'small-scale:' section whose input lies OUTSIDE vek's absolute-epsilon guard
+/// region is reported a second time under the class prefix 'above-guard:' (the 'small-scale:' keys are known findings
+/// caused by that guard and would otherwise mask any other defect that shows at small scale)
+fn emit(s: &Section, site: &str, pre: &str, guard_free: bool, class: &str, detail: Value, w: u64) {
+    if pre == "small-scale:" && guard_free { s.violation_w(site, &format!("above-guard:{}", class), detail.clone(), w); }
+    s.violation_w(site, &format!("{}{}", pre, class), detail, w);
+}
 /// JSON of coordinates given in units of 1/den
 fn jp(v: &P3, d: usize, den: i64) -> Value { json!(v[..d].iter().map(|&n| format!("{:?}", Q::new(n as i128, den as i128))).collect::<Vec<_>>()) }
 fn jn(n: i64, den: i64) -> Value { json!(format!("{:?}", Q::new(n as i128, den as i128))) }
@@ -162,28 +187,31 @@ fn require_tiers(s: &Section, tiers: &[&str], classes: &[&str]) {
 // ---------------------------------------------------------------------------------------------
 // 1. contains_point
 
-fn contains_tier<T: El, B: Ball<T>>(s: &Section, centres: &[P3], radii: &[i64], points: &[P3]) {
+fn contains_tier<T: El, B: Ball<T>>(s: &Section, centres: &[P3], radii: &[i64], points: &[P3], sc: i32, pre: &str) {
     let site = format!("{}::contains_point<{}>", B::NAME, T::NAME);
+    let f2 = qpow2(sc).mul(qpow2(sc));
     centres.par_iter().for_each(|c| {
         let mut cls = Cls::default();
         let (mut n, mut nt) = (0u64, 0u64);
         for &r in radii {
-            let ball = B::make(&tv::<T>(c, 2), T::frac(r, 2));
+            let ball = B::make(&tvs::<T>(c, 2, sc), ts::<T>(r, 2, sc));
             for p in points {
                 let dd = d2(c, p); // (2d)^2, an integer
-                let want = dd <= r * r;
-                let kind = if dd < r * r { "inside" } else if dd == r * r { "boundary" } else { "outside" };
+                // "at most the radius": a negative radius is below every distance
+                let want = r >= 0 && dd <= r * r;
+                let kind = if r < 0 { "negative-radius" } else if dd < r * r { "inside" } else if dd == r * r { "boundary" } else { "outside" };
                 n += 1;
                 if dd != 0 { nt += 1; }
-                let pt = tv::<T>(p, 2);
-                let inp = || json!({"center": jp(c, B::D, 2), "radius": jn(r, 2), "p": jp(p, B::D, 2)});
+                let pt = tvs::<T>(p, 2, sc);
+                let inp = || json!({"center": jps(c, B::D, 2, sc), "radius": jns(r, 2, sc), "p": jps(p, B::D, 2, sc)});
                 match s.call(&site, inp, || ball.contains(&pt)) {
                     Some(got) => {
                         cls.hit(T::NAME, kind);
                         if got != want {
-                            s.violation_w(&site, "wrong-verdict", json!({"input": inp(), "distance_squared": jn(dd, 4), "radius_squared": jn(r * r, 4), "got": got, "want": want}), l1(c) + l1(p) + r as u64);
+                            let class = format!("{}{}wrong-verdict", pre, if r < 0 { "negative-radius:" } else { "" });
+                            s.violation_w(&site, &class, json!({"input": inp(), "distance_squared": format!("{:?}", Q::new(dd as i128, 4).mul(f2)), "radius_squared": format!("{:?}", Q::new((r * r) as i128, 4).mul(f2)), "got": got, "want": want}), l1(c) + l1(p) + r.unsigned_abs() + sc.unsigned_abs() as u64);
                         }
-                        if kind == "boundary" && dd != 0 && s.wants_sample() { s.sample(json!({"site": site, "input": inp(), "distance_squared": jn(dd, 4), "got": got, "want": want})); }
+                        if kind == "boundary" && dd != 0 && s.wants_sample() { s.sample(json!({"site": site, "input": inp(), "distance_squared": format!("{:?}", Q::new(dd as i128, 4).mul(f2)), "got": got, "want": want})); }
                     }
                     None => cls.hit(T::NAME, if is_square(dd) { "unmodelled-on-rational-distance" } else { "unmodelled-irrational-distance" }),
                 }
@@ -197,28 +225,33 @@ fn contains_tier<T: El, B: Ball<T>>(s: &Section, centres: &[P3], radii: &[i64], 
 // ---------------------------------------------------------------------------------------------
 // 2. collides_with_*
 
-fn collides_tier<T: El, B: Ball<T>>(s: &Section, centres: &[P3], radii: &[i64]) {
+fn collides_tier<T: El, B: Ball<T>>(s: &Section, centres: &[P3], radii: &[i64], sc: i32, pre: &str) {
     let site = format!("{}::{}<{}>", B::NAME, B::COLLIDES, T::NAME);
+    let f2 = qpow2(sc).mul(qpow2(sc));
     centres.par_iter().for_each(|c1| {
         let mut cls = Cls::default();
         let (mut n, mut nt) = (0u64, 0u64);
         for c2 in centres {
             let dd = d2(c1, c2);
             for &r1 in radii { for &r2 in radii {
-                let (a, b) = (B::make(&tv::<T>(c1, 2), T::frac(r1, 2)), B::make(&tv::<T>(c2, 2), T::frac(r2, 2)));
+                let (a, b) = (B::make(&tvs::<T>(c1, 2, sc), ts::<T>(r1, 2, sc)), B::make(&tvs::<T>(c2, 2, sc), ts::<T>(r2, 2, sc)));
                 let rr = (r1 + r2) * (r1 + r2);
-                let want = dd <= rr;
-                let kind = if dd < rr { "overlapping" } else if dd == rr { "tangent" } else { "disjoint" };
+                // "at most the sum of radii": a negative sum is below every distance
+                let want = r1 + r2 >= 0 && dd <= rr;
+                let neg = r1 < 0 || r2 < 0;
+                let kind = if r1 + r2 < 0 { "negative-radius-sum" } else if dd < rr { "overlapping" } else if dd == rr { "tangent" } else { "disjoint" };
                 n += 1;
                 if dd != 0 { nt += 1; }
-                let inp = || json!({"self": {"center": jp(c1, B::D, 2), "radius": jn(r1, 2)}, "other": {"center": jp(c2, B::D, 2), "radius": jn(r2, 2)}});
+                let inp = || json!({"self": {"center": jps(c1, B::D, 2, sc), "radius": jns(r1, 2, sc)}, "other": {"center": jps(c2, B::D, 2, sc), "radius": jns(r2, 2, sc)}});
                 match s.call(&site, inp, || a.collides(b)) {
                     Some(got) => {
                         cls.hit(T::NAME, kind);
+                        if neg && r1 + r2 >= 0 { cls.hit(T::NAME, "mixed-sign-radii"); }
                         if got != want {
-                            s.violation_w(&site, "wrong-verdict", json!({"input": inp(), "centre_distance_squared": jn(dd, 4), "radius_sum_squared": jn(rr, 4), "got": got, "want": want}), l1(c1) + l1(c2) + (r1 + r2) as u64);
+                            let class = format!("{}{}wrong-verdict", pre, if neg { "negative-radius:" } else { "" });
+                            s.violation_w(&site, &class, json!({"input": inp(), "centre_distance_squared": format!("{:?}", Q::new(dd as i128, 4).mul(f2)), "radius_sum_squared": format!("{:?}", Q::new(rr as i128, 4).mul(f2)), "got": got, "want": want}), l1(c1) + l1(c2) + r1.unsigned_abs() + r2.unsigned_abs() + sc.unsigned_abs() as u64);
                         }
-                        if kind == "tangent" && dd != 0 && r1 != r2 && s.wants_sample() { s.sample(json!({"site": site, "input": inp(), "centre_distance_squared": jn(dd, 4), "got": got, "want": want})); }
+                        if kind == "tangent" && dd != 0 && r1 != r2 && s.wants_sample() { s.sample(json!({"site": site, "input": inp(), "centre_distance_squared": format!("{:?}", Q::new(dd as i128, 4).mul(f2)), "got": got, "want": want})); }
                     }
                     None => cls.hit(T::NAME, if is_square(dd) { "unmodelled-on-rational-distance" } else { "unmodelled-irrational-distance" }),
                 }
@@ -232,8 +265,9 @@ fn collides_tier<T: El, B: Ball<T>>(s: &Section, centres: &[P3], radii: &[i64]) 
 // ---------------------------------------------------------------------------------------------
 // 3. collision_vector_with_*:   other.center + cv   must be at distance r1+r2 from self.center
 
-fn cv_tier<T: El, B: Ball<T>>(s: &Section, centres: &[P3], radii: &[i64]) {
+fn cv_tier<T: El, B: Ball<T>>(s: &Section, centres: &[P3], radii: &[i64], sc: i32, pre: &str) {
     let site = format!("{}::{}<{}>", B::NAME, B::CV, T::NAME);
+    let (f1, fq) = (T::pow2(sc).f(), qpow2(sc));
     centres.par_iter().for_each(|c1| {
         let mut cls = Cls::default();
         let (mut n, mut nt) = (0u64, 0u64);
@@ -241,38 +275,43 @@ fn cv_tier<T: El, B: Ball<T>>(s: &Section, centres: &[P3], radii: &[i64]) {
             let dd = d2(c1, c2);
             if dd == 0 { cls.hit(T::NAME, "coincident-centres-excluded"); continue; }
             for &r1 in radii { for &r2 in radii {
-                let (a, b) = (B::make(&tv::<T>(c1, 2), T::frac(r1, 2)), B::make(&tv::<T>(c2, 2), T::frac(r2, 2)));
                 let rsum = r1 + r2;
+                // two shapes whose radii sum to a negative number cannot be tangent (a distance is never negative): left open
+                if rsum < 0 { cls.hit(T::NAME, "negative-radius-sum-excluded"); continue; }
+                let (a, b) = (B::make(&tvs::<T>(c1, 2, sc), ts::<T>(r1, 2, sc)), B::make(&tvs::<T>(c2, 2, sc), ts::<T>(r2, 2, sc)));
+                let neg = r1 < 0 || r2 < 0;
                 let kind = if dd < rsum * rsum { "penetrating" } else if dd == rsum * rsum { "already-tangent" } else { "separated" };
                 n += 1;
                 if dd != rsum * rsum { nt += 1; }
-                let inp = || json!({"self": {"center": jp(c1, B::D, 2), "radius": jn(r1, 2)}, "other": {"center": jp(c2, B::D, 2), "radius": jn(r2, 2)}});
-                let w = l1(c1) + l1(c2) + rsum as u64;
+                let inp = || json!({"self": {"center": jps(c1, B::D, 2, sc), "radius": jns(r1, 2, sc)}, "other": {"center": jps(c2, B::D, 2, sc), "radius": jns(r2, 2, sc)}});
+                let w = l1(c1) + l1(c2) + r1.unsigned_abs() + r2.unsigned_abs() + sc.unsigned_abs() as u64;
                 let Some(cv) = s.call(&site, inp, || a.cv(b)) else {
                     cls.hit(T::NAME, if is_square(dd) { "unmodelled-on-rational-distance" } else { "unmodelled-irrational-distance" });
                     continue;
                 };
                 cls.hit(T::NAME, kind);
+                if neg { cls.hit(T::NAME, "mixed-sign-radii"); }
+                let class = format!("{}{}not-tangent-after-move", pre, if neg { "negative-radius:" } else { "" });
                 if T::EXACT {
                     // exact: | (c2 + cv) - c1 |^2 == (r1+r2)^2
                     let mut nd = Q::ZERO;
                     let mut ok = true;
                     for i in 0..B::D {
-                        match cv[i].exact() { Some(v) => { let t = Q::new((c2[i] - c1[i]) as i128, 2).add(v); nd = nd.add(t.mul(t)); } None => ok = false }
+                        match cv[i].exact() { Some(v) => { let t = Q::new((c2[i] - c1[i]) as i128, 2).mul(fq).add(v); nd = nd.add(t.mul(t)); } None => ok = false }
                     }
-                    let want = Q::new((rsum * rsum) as i128, 4);
+                    let want = Q::new((rsum * rsum) as i128, 4).mul(fq).mul(fq);
                     if !ok || nd != want {
-                        s.violation_w(&site, "not-tangent-after-move", json!({"input": inp(), "collision_vector": jt(&cv, B::D), "new_centre_distance_squared": format!("{:?}", nd), "want_(r1+r2)^2": format!("{:?}", want)}), w);
+                        s.violation_w(&site, &class, json!({"input": inp(), "collision_vector": jt(&cv, B::D), "new_centre_distance_squared": format!("{:?}", nd), "want_(r1+r2)^2": format!("{:?}", want)}), w);
                     }
                     if kind == "penetrating" && s.wants_sample() { s.sample(json!({"site": site, "input": inp(), "collision_vector": jt(&cv, B::D), "new_centre_distance_squared": format!("{:?}", nd), "(r1+r2)^2": format!("{:?}", want)})); }
                 } else {
                     // float: new centre distance computed in f64 from the returned components, bound 256 eps * scale
                     let mut sq = 0f64;
-                    for i in 0..B::D { let t = (c2[i] as f64 / 2.0 + cv[i].f()) - c1[i] as f64 / 2.0; sq += t * t; }
-                    let (nd, want) = (sq.sqrt(), rsum as f64 / 2.0);
-                    let scale = want + (dd as f64).sqrt() / 2.0 + 1.0;
+                    for i in 0..B::D { let t = (c2[i] as f64 / 2.0 * f1 + cv[i].f()) - c1[i] as f64 / 2.0 * f1; sq += t * t; }
+                    let (nd, want) = (sq.sqrt(), rsum as f64 / 2.0 * f1);
+                    let scale = (rsum as f64 / 2.0 + (dd as f64).sqrt() / 2.0 + 1.0) * f1;
                     if !T::close(nd, want, scale) {
-                        s.violation_w(&site, "not-tangent-after-move", json!({"input": inp(), "collision_vector": jt(&cv, B::D), "new_centre_distance": nd, "want_r1+r2": want}), w);
+                        s.violation_w(&site, &class, json!({"input": inp(), "collision_vector": jt(&cv, B::D), "new_centre_distance": nd, "want_r1+r2": want}), w);
                     }
                 }
             } }
@@ -285,23 +324,25 @@ fn cv_tier<T: El, B: Ball<T>>(s: &Section, centres: &[P3], radii: &[i64]) {
 // ---------------------------------------------------------------------------------------------
 // 4. bounds, diameter
 
-fn bounds_tier<T: El, B: Ball<T>>(s: &Section, centres: &[P3], radii: &[i64]) {
+fn bounds_tier<T: El, B: Ball<T>>(s: &Section, centres: &[P3], radii: &[i64], sc: i32, pre: &str) {
     let sites = [format!("{}::{}<{}>", B::NAME, B::RECT, T::NAME), format!("{}::{}<{}>", B::NAME, B::AAB, T::NAME), format!("{}::diameter<{}>", B::NAME, T::NAME)];
     centres.par_iter().for_each(|c| {
         let mut cls = Cls::default();
         for &r in radii {
-            let ball = B::make(&tv::<T>(c, 2), T::frac(r, 2));
-            let inp = || json!({"center": jp(c, B::D, 2), "radius": jn(r, 2)});
-            let lo: [T; 3] = [T::frac(c[0] - r, 2), T::frac(c[1] - r, 2), T::frac(c[2] - r, 2)];
-            let hi: [T; 3] = [T::frac(c[0] + r, 2), T::frac(c[1] + r, 2), T::frac(c[2] + r, 2)];
-            let ext = T::frac(r, 1);
-            let w = l1(c) + r as u64;
-            cls.hit(T::NAME, if r == 0 { "radius-zero" } else { "radius-positive" });
+            let ball = B::make(&tvs::<T>(c, 2, sc), ts::<T>(r, 2, sc));
+            let inp = || json!({"center": jps(c, B::D, 2, sc), "radius": jns(r, 2, sc)});
+            let lo: [T; 3] = [ts::<T>(c[0] - r, 2, sc), ts::<T>(c[1] - r, 2, sc), ts::<T>(c[2] - r, 2, sc)];
+            let hi: [T; 3] = [ts::<T>(c[0] + r, 2, sc), ts::<T>(c[1] + r, 2, sc), ts::<T>(c[2] + r, 2, sc)];
+            let ext = ts::<T>(r, 1, sc);
+            let w = l1(c) + r.unsigned_abs() + sc.unsigned_abs() as u64;
+            // a negative radius is taken literally: "centre plus/minus the radius per axis" (min = c - r, max = c + r, extent = 2r)
+            let pre = format!("{}{}", pre, if r < 0 { "negative-radius:" } else { "" });
+            cls.hit(T::NAME, if r == 0 { "radius-zero" } else if r > 0 { "radius-positive" } else { "radius-negative" });
             s.eval(r != 0);
             if let Some((pos, e)) = s.call(&sites[0], inp, || ball.rect_()) {
                 for i in 0..B::D {
                     if pos[i] != lo[i] || e[i] != ext || pos[i] + e[i] != hi[i] {
-                        s.violation_w(&sites[0], "wrong-bounds", json!({"input": inp(), "axis": i, "got_position": jt(&pos, B::D), "got_extent": jt(&e, B::D), "want_min": jt(&lo, B::D), "want_max": jt(&hi, B::D)}), w);
+                        s.violation_w(&sites[0], &format!("{}wrong-bounds", pre), json!({"input": inp(), "axis": i, "got_position": jt(&pos, B::D), "got_extent": jt(&e, B::D), "want_min": jt(&lo, B::D), "want_max": jt(&hi, B::D)}), w);
                     }
                 }
             }
@@ -309,14 +350,14 @@ fn bounds_tier<T: El, B: Ball<T>>(s: &Section, centres: &[P3], radii: &[i64]) {
             if let Some((mn, mx)) = s.call(&sites[1], inp, || ball.aab_()) {
                 for i in 0..B::D {
                     if mn[i] != lo[i] || mx[i] != hi[i] {
-                        s.violation_w(&sites[1], "wrong-bounds", json!({"input": inp(), "axis": i, "got_min": jt(&mn, B::D), "got_max": jt(&mx, B::D), "want_min": jt(&lo, B::D), "want_max": jt(&hi, B::D)}), w);
+                        s.violation_w(&sites[1], &format!("{}wrong-bounds", pre), json!({"input": inp(), "axis": i, "got_min": jt(&mn, B::D), "got_max": jt(&mx, B::D), "want_min": jt(&lo, B::D), "want_max": jt(&hi, B::D)}), w);
                     }
                 }
                 if r != 0 && c[0] != 0 && s.wants_sample() { s.sample(json!({"site": sites[1], "input": inp(), "got_min": jt(&mn, B::D), "got_max": jt(&mx, B::D)})); }
             }
             s.eval(r != 0);
             if let Some(dm) = s.call(&sites[2], inp, || ball.diam()) {
-                if dm != ext { s.violation_w(&sites[2], "wrong-value", json!({"input": inp(), "got": format!("{:?}", dm), "want": format!("{:?}", ext)}), w); }
+                if dm != ext { s.violation_w(&sites[2], &format!("{}wrong-value", pre), json!({"input": inp(), "got": format!("{:?}", dm), "want": format!("{:?}", ext)}), w); }
             }
         }
         cls.flush(s);
@@ -326,10 +367,11 @@ fn bounds_tier<T: El, B: Ball<T>>(s: &Section, centres: &[P3], radii: &[i64]) {
 /// integer shapes (Disk<i32,i32>, Sphere<i32,i32>): same claims, integer centres and radii (units, not halves)
 fn bounds_i32(s: &Section, vals: &[i64], radii: &[i64]) {
     for c in cube(vals, 3) {
+        // (callers keep centre +- radius and 2*radius inside i32)
         for &r in radii {
             let (cx, cy, cz, ri) = (c[0] as i32, c[1] as i32, c[2] as i32, r as i32);
             let inp = || json!({"center": [cx, cy, cz], "radius": ri});
-            let w = l1(&c) + r as u64;
+            let w = l1(&c) + r.unsigned_abs();
             if c[2] == 0 {
                 let dk = Disk { center: Vec2 { x: cx, y: cy }, radius: ri };
                 s.eval(r != 0);
@@ -358,7 +400,7 @@ fn bounds_i32(s: &Section, vals: &[i64], radii: &[i64]) {
             if let Some(dm) = s.call("Sphere::diameter<i32>", inp, || sp.diameter()) {
                 if dm != 2 * ri { s.violation_w("Sphere::diameter<i32>", "wrong-value", json!({"input": inp(), "got": dm}), w); }
             }
-            s.class(if r == 0 { "i32/radius-zero" } else { "i32/radius-positive" });
+            s.class(if r == 0 { "i32/radius-zero" } else if r > 0 { "i32/radius-positive" } else { "i32/radius-negative" });
         }
     }
 }
@@ -382,33 +424,45 @@ fn within_4eps(got: Q, coef: Q, eps_bits: u32) -> Option<(bool, f64)> {
     Some((diff <= tol, if rhs == 0 { 0.0 } else { diff as f64 / rhs.abs() as f64 }))
 }
 
-/// radii: (numerator, denominator)
-fn measures_tier<T: El, B: Ball<T>>(s: &Section, radii: &[(i64, i64)]) {
+/// one returned measure against coefficient * pi (coefficient exact); `got` was produced for a radius scaled by 2^sc and
+/// the measure is homogeneous of degree `deg` in the radius, so got * 2^(-sc*deg) (an exact operation in every tier) is
+/// compared with the unscaled coefficient
+fn check_measure<T: El>(s: &Section, site: &str, class: &str, inp: &dyn Fn() -> Value, got: T, cq: Q, sc: i32, deg: i32, zero: bool, frac: bool, w: u64) {
+    if T::EXACT {
+        // structural: the angle token  coef * pi
+        let cqs = cq.mul(qpow2(sc * deg));
+        let g = format!("{:?}", got);
+        let wn = format!("{:?}", X::pi() * X::R(cqs));
+        if !got.is_pi_times(cqs) { s.violation_w(site, class, json!({"input": inp(), "got": g, "want_token": wn, "coefficient_of_pi": format!("{:?}", cqs)}), w); }
+        s.class(&format!("X/{}", if zero { "radius-zero" } else { "radius-positive" }));
+        if !zero && frac && s.wants_sample() { s.sample(json!({"site": site, "input": inp(), "got": g, "want_token (k * pi/2)": wn})); }
+    } else {
+        s.class(&format!("{}/{}", T::NAME, if zero { "radius-zero" } else { "radius-positive" }));
+        let unscaled = got.f() * f64::pow2(-sc * deg);
+        if !got.f().is_finite() { s.violation_w(site, class, json!({"input": inp(), "got": got.f(), "why": "non-finite"}), w); return }
+        // (every expected unscaled value lies in [2^-8, 2^20]: a float outside the i128 rational range is wrong, as in the original check)
+        let Some(gq) = Q::from_f64(unscaled) else { s.violation_w(site, class, json!({"input": inp(), "got": got.f(), "why": "magnitude outside 2^-126..2^123"}), w); return };
+        match within_4eps(gq, cq, T::EPS_BITS) {
+            Some((true, _)) => {}
+            Some((false, rel)) => s.violation_w(site, class, json!({"input": inp(), "got": got.f(), "want": cq.to_f64() * std::f64::consts::PI * f64::pow2(sc * deg), "relative_error": rel, "allowed": 4.0 * T::eps().to_f64()}), w),
+            None => s.unmodelled("oracle integer overflow"),
+        }
+    }
+}
+const DEGREES: [[i32; 2]; 2] = [[1, 2], [2, 3]]; // [Disk: circumference, area], [Sphere: surface_area, volume]
+
+/// radii: (numerator, denominator), multiplied by 2^sc; the measures must not depend on the centre
+fn measures_tier<T: El, B: Ball<T>>(s: &Section, radii: &[(i64, i64)], centre: &P3, sc: i32, pre: &str) {
     for &(rn, rd) in radii {
-        let ball = B::make(&tv::<T>(&[0, 0, 0], 1), T::frac(rn, rd));
+        let ball = B::make(&tvs::<T>(centre, 1, sc), ts::<T>(rn, rd, sc));
         let rq = Q::new(rn as i128, rd as i128);
         for (i, (name, coef)) in B::MEASURES.iter().enumerate() {
             let site = format!("{}::{}<{}>", B::NAME, name, T::NAME);
-            let inp = || json!({"radius": jn(rn, rd)});
+            let inp = || if *centre == [0, 0, 0] && sc == 0 { json!({"radius": jn(rn, rd)}) } else { json!({"center": jps(centre, B::D, 1, sc), "radius": jns(rn, rd, sc)}) };
             let cq = coef(rq);
             s.eval(rn != 0);
             let Some(got) = s.call(&site, inp, || ball.measure(i)) else { continue };
-            if T::EXACT {
-                // structural: the angle token  coef * pi
-                let g = format!("{:?}", got);
-                let wn = format!("{:?}", X::pi() * X::R(cq));
-                if !got.is_pi_times(cq) { s.violation_w(&site, "wrong-value", json!({"input": inp(), "got": g, "want_token": wn, "coefficient_of_pi": format!("{:?}", cq)}), (rn + rd) as u64); }
-                s.class(&format!("X/{}", if rn == 0 { "radius-zero" } else { "radius-positive" }));
-                if rn != 0 && rd != 1 && s.wants_sample() { s.sample(json!({"site": site, "input": inp(), "got": g, "want_token (k * pi/2)": wn})); }
-            } else {
-                s.class(&format!("{}/{}", T::NAME, if rn == 0 { "radius-zero" } else { "radius-positive" }));
-                let Some(gq) = got.exact() else { s.violation_w(&site, "wrong-value", json!({"input": inp(), "got": got.f(), "why": "non-finite"}), (rn + rd) as u64); continue };
-                match within_4eps(gq, cq, T::EPS_BITS) {
-                    Some((true, _)) => {}
-                    Some((false, rel)) => s.violation_w(&site, "wrong-value", json!({"input": inp(), "got": got.f(), "want": cq.to_f64() * std::f64::consts::PI, "relative_error": rel, "allowed": 4.0 * T::eps().to_f64()}), (rn + rd) as u64),
-                    None => s.unmodelled("oracle integer overflow"),
-                }
-            }
+            check_measure::<T>(s, &site, &format!("{}wrong-value", pre), &inp, got, cq, sc, DEGREES[B::D - 2][i], rn == 0, rd != 1, (rn.abs() + rd) as u64 + sc.unsigned_abs() as u64);
         }
     }
 }
@@ -453,7 +507,6 @@ impl<T: El> Seg<T> for LineSegment3<T> {
 
 fn qsub(a: &[Q; 3], b: &[Q; 3]) -> [Q; 3] { [a[0].sub(b[0]), a[1].sub(b[1]), a[2].sub(b[2])] }
 fn qdot(a: &[Q; 3], b: &[Q; 3]) -> Q { a[0].mul(b[0]).add(a[1].mul(b[1])).add(a[2].mul(b[2])) }
-fn qv(a: &P3, den: i64) -> [Q; 3] { [Q::new(a[0] as i128, den as i128), Q::new(a[1] as i128, den as i128), Q::new(a[2] as i128, den as i128)] }
 
 /// closed-form oracle on the integer numerators: (region, exact squared distance from p to the segment ab)
 fn seg_oracle(a: &P3, b: &P3, p: &P3) -> (&'static str, Q) {
@@ -469,40 +522,46 @@ fn seg_oracle(a: &P3, b: &P3, p: &P3) -> (&'static str, Q) {
     else { ("interior-foot", Q::int(pa as i128).sub(Q::new((s0 * s0) as i128, l as i128))) }
 }
 
-/// all coordinates are  n / 2^shift ;  `pre` is prepended to the violation classes (small-scale sections)
-fn seg_exact<S: Seg<X>>(s: &Section, ends: &[P3], pts: &[P3], shift: u32, pre: &str) {
-    let den = 1i64 << shift;
+/// all coordinates are  n * 2^sc  (sc <= 0: small shapes, sc > 0: large shapes);  `pre` is prepended to the violation
+/// classes of the scaled sections.  A segment is `guard_free` when vek's absolute-epsilon degeneracy test
+/// (len_sq <= 2^-GUARD_BITS) does not fire on it although it is not degenerate: see `emit`.
+fn seg_exact<S: Seg<X>>(s: &Section, ends: &[P3], pts: &[P3], sc: i32, pre: &str) {
     let site_p = format!("{}::projected_point<X>", S::NAME);
     let site_d = format!("{}::distance_to_point<X>", S::NAME);
     let site_r = format!("{}::From<Range>/into_range<X>", S::NAME);
-    let inv_den2 = Q::new(1, (den as i128) * (den as i128));
+    let fq = qpow2(sc);
+    let f2 = fq.mul(fq);
+    let guard = qpow2(-(X::GUARD_BITS as i32));
+    let qvs = |a: &P3| -> [Q; 3] { [Q::int(a[0] as i128).mul(fq), Q::int(a[1] as i128).mul(fq), Q::int(a[2] as i128).mul(fq)] };
     ends.par_iter().for_each(|a| {
         let mut cls = Cls::default();
         let (mut n, mut nt) = (0u64, 0u64);
         for b in ends {
-            let (ax, bx) = (tv::<X>(a, den), tv::<X>(b, den));
+            let (ax, bx) = (tvs::<X>(a, 1, sc), tvs::<X>(b, 1, sc));
             // range conversions
             n += 1; if a != b { nt += 1; }
-            if let Some(rt) = s.call(&site_r, || json!({"start": jp(a, S::D, den), "end": jp(b, S::D, den)}), || S::roundtrip(&ax, &bx)) {
+            if let Some(rt) = s.call(&site_r, || json!({"start": jps(a, S::D, 1, sc), "end": jps(b, S::D, 1, sc)}), || S::roundtrip(&ax, &bx)) {
                 if rt[0] != ax || rt[1] != bx || rt[2] != ax || rt[3] != bx {
-                    s.violation_w(&site_r, &format!("{}wrong-endpoints", pre), json!({"start": jp(a, S::D, den), "end": jp(b, S::D, den), "got": [jt(&rt[0], S::D), jt(&rt[1], S::D), jt(&rt[2], S::D), jt(&rt[3], S::D)]}), l1(a) + l1(b));
+                    s.violation_w(&site_r, &format!("{}wrong-endpoints", pre), json!({"start": jps(a, S::D, 1, sc), "end": jps(b, S::D, 1, sc), "got": [jt(&rt[0], S::D), jt(&rt[1], S::D), jt(&rt[2], S::D), jt(&rt[3], S::D)]}), l1(a) + l1(b));
                 }
                 cls.hit("", if a == b { "range-roundtrip-degenerate" } else { "range-roundtrip" });
             }
             let seg = S::make(&ax, &bx);
-            let (aq, bq) = (qv(a, den), qv(b, den));
+            let (aq, bq) = (qvs(a), qvs(b));
             let e = qsub(&bq, &aq);
             let l = qdot(&e, &e);
+            let guard_free = a == b || sc >= 0 || l > guard;
             for p in pts {
-                let px = tv::<X>(p, den);
-                let pq = qv(p, den);
+                let px = tvs::<X>(p, 1, sc);
+                let pq = qvs(p);
                 let (region, dmin_int) = seg_oracle(a, b, p);
-                let dmin = dmin_int.mul(inv_den2);
-                let inp = || json!({"start": jp(a, S::D, den), "end": jp(b, S::D, den), "p": jp(p, S::D, den)});
-                let w = l1(a) + l1(b) + l1(p) + shift as u64;
+                let dmin = dmin_int.mul(f2);
+                let inp = || json!({"start": jps(a, S::D, 1, sc), "end": jps(b, S::D, 1, sc), "p": jps(p, S::D, 1, sc)});
+                let w = l1(a) + l1(b) + l1(p) + sc.unsigned_abs() as u64;
                 n += 1; if a != b { nt += 1; }
                 cls.hit("", region);
                 if dmin == Q::ZERO { cls.hit("", "point-on-segment"); }
+                if pre == "small-scale:" { cls.hit("", if guard_free { "outside-the-epsilon-guard" } else { "inside-the-epsilon-guard" }); }
                 if let Some(g) = s.call(&site_p, inp, || S::proj(seg, &px)) {
                     let gq = [g[0].rat(), g[1].rat(), g[2].rat()];
                     // (i) lies on the segment: collinear with, and between, the end points
@@ -510,7 +569,7 @@ fn seg_exact<S: Seg<X>>(s: &Section, ends: &[P3], pts: &[P3], shift: u32, pre: &
                     let par = qdot(&wv, &e);
                     let collinear = (0..3).all(|i| (0..3).all(|j| wv[i].mul(e[j]) == wv[j].mul(e[i])));
                     let on = if a == b { gq == aq } else { collinear && par >= Q::ZERO && par <= l };
-                    if !on { s.violation_w(&site_p, &format!("{}off-segment", pre), json!({"input": inp(), "got": jt(&g, S::D), "parameter_times_len_sq": format!("{:?}", par), "len_sq": format!("{:?}", l)}), w); }
+                    if !on { emit(s, &site_p, pre, guard_free, "off-segment", json!({"input": inp(), "got": jt(&g, S::D), "parameter_times_len_sq": format!("{:?}", par), "len_sq": format!("{:?}", l)}), w); }
                     // (ii) no sampled point a + (k/24)(b-a) is strictly nearer
                     let gp = qsub(&gq, &pq);
                     let dg = qdot(&gp, &gp);
@@ -520,10 +579,10 @@ fn seg_exact<S: Seg<X>>(s: &Section, ends: &[P3], pts: &[P3], shift: u32, pre: &
                         let v = qsub(&sp, &pq);
                         let dk = qdot(&v, &v);
                         assert!(dk >= dmin, "oracle error: a sampled point is nearer than the closed-form minimum");
-                        if dk < dg { s.violation_w(&site_p, &format!("{}sampled-point-nearer", pre), json!({"input": inp(), "got": jt(&g, S::D), "got_distance_squared": format!("{:?}", dg), "k_of_24": k, "sample_distance_squared": format!("{:?}", dk)}), w); break; }
+                        if dk < dg { emit(s, &site_p, pre, guard_free, "sampled-point-nearer", json!({"input": inp(), "got": jt(&g, S::D), "got_distance_squared": format!("{:?}", dg), "k_of_24": k, "sample_distance_squared": format!("{:?}", dk)}), w); break; }
                     }
                     // (iii) it is the nearest point: its squared distance is the closed-form minimum
-                    if on && dg != dmin { s.violation_w(&site_p, &format!("{}not-nearest", pre), json!({"input": inp(), "got": jt(&g, S::D), "got_distance_squared": format!("{:?}", dg), "minimum_distance_squared": format!("{:?}", dmin)}), w); }
+                    if on && dg != dmin { emit(s, &site_p, pre, guard_free, "not-nearest", json!({"input": inp(), "got": jt(&g, S::D), "got_distance_squared": format!("{:?}", dg), "minimum_distance_squared": format!("{:?}", dmin)}), w); }
                     if region == "interior-foot" && dmin != Q::ZERO && s.wants_sample() { s.sample(json!({"site": site_p, "input": inp(), "got": jt(&g, S::D), "distance_squared": format!("{:?}", dg)})); }
                 }
                 // distance: exact tier where the squared distance is a perfect square
@@ -532,7 +591,7 @@ fn seg_exact<S: Seg<X>>(s: &Section, ends: &[P3], pts: &[P3], shift: u32, pre: &
                     Some(g) => {
                         cls.hit("X", "distance-exact");
                         let gq = g.rat();
-                        if gq < Q::ZERO || gq.mul(gq) != dmin { s.violation_w(&site_d, &format!("{}wrong-distance", pre), json!({"input": inp(), "got": format!("{:?}", gq), "want_squared": format!("{:?}", dmin)}), w); }
+                        if gq < Q::ZERO || gq.mul(gq) != dmin { emit(s, &site_d, pre, guard_free, "wrong-distance", json!({"input": inp(), "got": format!("{:?}", gq), "want_squared": format!("{:?}", dmin)}), w); }
                     }
                     None => cls.hit("X", if dmin.sqrt_exact().is_some() { "distance-unmodelled-on-rational-distance" } else { "distance-unmodelled-irrational" }),
                 }
@@ -543,27 +602,56 @@ fn seg_exact<S: Seg<X>>(s: &Section, ends: &[P3], pts: &[P3], shift: u32, pre: &
     });
 }
 
-fn seg_float<T: El, S: Seg<T>>(s: &Section, ends: &[P3], pts: &[P3], shift: u32, pre: &str) {
-    let den = 1i64 << shift;
+/// exact foot of p on the segment ab (integer numerators): the point whose squared distance `seg_oracle` returns
+fn seg_foot(a: &P3, b: &P3, p: &P3) -> [Q; 3] {
+    let e: P3 = [b[0] - a[0], b[1] - a[1], b[2] - a[2]];
+    let l = e[0] * e[0] + e[1] * e[1] + e[2] * e[2];
+    let s0 = (0..3).map(|i| (p[i] - a[i]) * e[i]).sum::<i64>();
+    let t = if l == 0 || s0 <= 0 { Q::ZERO } else if s0 >= l { Q::ONE } else { Q::new(s0 as i128, l as i128) };
+    [0, 1, 2].map(|i| Q::int(a[i] as i128).add(Q::int(e[i] as i128).mul(t)))
+}
+
+fn seg_float<T: El, S: Seg<T>>(s: &Section, ends: &[P3], pts: &[P3], sc: i32, pre: &str) {
     let site_d = format!("{}::distance_to_point<{}>", S::NAME, T::NAME);
-    let inv_den2 = Q::new(1, (den as i128) * (den as i128));
+    let site_p = format!("{}::projected_point<{}>", S::NAME, T::NAME);
+    let fq = qpow2(sc);
+    let f2 = fq.mul(fq);
+    let f1 = f64::pow2(sc);
+    let guard = qpow2(-(T::GUARD_BITS as i32));
     ends.par_iter().for_each(|a| {
         let mut cls = Cls::default();
         let (mut n, mut nt) = (0u64, 0u64);
         for b in ends {
-            let seg = S::make(&tv::<T>(a, den), &tv::<T>(b, den));
+            let (at, bt) = (tvs::<T>(a, 1, sc), tvs::<T>(b, 1, sc));
+            let seg = S::make(&at, &bt);
+            let guard_free = a == b || sc >= 0 || Q::int(d2(a, b) as i128).mul(f2) > guard;
             for p in pts {
                 let (region, dmin_int) = seg_oracle(a, b, p);
-                let dmin = dmin_int.mul(inv_den2);
-                let inp = || json!({"start": jp(a, S::D, den), "end": jp(b, S::D, den), "p": jp(p, S::D, den)});
+                let dmin = dmin_int.mul(f2);
+                let inp = || json!({"start": jps(a, S::D, 1, sc), "end": jps(b, S::D, 1, sc), "p": jps(p, S::D, 1, sc)});
+                let w = l1(a) + l1(b) + l1(p) + sc.unsigned_abs() as u64;
                 n += 1; if a != b { nt += 1; }
-                let pt = tv::<T>(p, den);
+                let pt = tvs::<T>(p, 1, sc);
+                let scale = (l1(a) + l1(b) + l1(p)) as f64 * f1;
                 if let Some(g) = s.call(&site_d, inp, || S::dist(seg, &pt)) {
                     cls.hit(T::NAME, region);
-                    let want = dmin_int.to_f64().sqrt() / den as f64;
-                    let scale = (l1(a) + l1(b) + l1(p)) as f64 / den as f64;
+                    let want = dmin_int.to_f64().sqrt() * f1;
                     if !T::close(g.f(), want, scale) {
-                        s.violation_w(&site_d, &format!("{}wrong-distance", pre), json!({"input": inp(), "got": g.f(), "want": want, "want_squared": format!("{:?}", dmin), "bound": 256.0 * T::eps().to_f64() * scale}), l1(a) + l1(b) + l1(p) + shift as u64);
+                        emit(s, &site_d, pre, guard_free, "wrong-distance", json!({"input": inp(), "got": g.f(), "want": want, "want_squared": format!("{:?}", dmin), "bound": 256.0 * T::eps().to_f64() * scale}), w);
+                    }
+                }
+                // the projected point itself, on the float tiers: a degenerate segment must give start exactly; otherwise every
+                // component is within the derived bound of the exact foot. Inside the epsilon-guard region (a known finding,
+                // already reported through distance_to_point above) the point is not asserted.
+                if !guard_free { cls.hit(T::NAME, "projected-point-skipped-inside-the-epsilon-guard"); continue; }
+                n += 1; if a != b { nt += 1; }
+                if let Some(g) = s.call(&site_p, inp, || S::proj(seg, &pt)) {
+                    cls.hit(T::NAME, "projected-point");
+                    let foot = seg_foot(a, b, p);
+                    let ok = if a == b { g == at } else { (0..S::D).all(|i| T::close(g[i].f(), foot[i].to_f64() * f1, scale)) };
+                    if !ok {
+                        let class = format!("{}wrong-point", if pre == "small-scale:" { "above-guard:" } else { pre });
+                        s.violation_w(&site_p, &class, json!({"input": inp(), "got": jt(&g, S::D), "want": foot.iter().take(S::D).map(|q| format!("{:?}", q.mul(fq))).collect::<Vec<_>>(), "region": region, "bound": 256.0 * T::eps().to_f64() * scale}), w);
                     }
                 }
             }
@@ -580,12 +668,69 @@ fn sub3(a: &P3, b: &P3) -> P3 { [a[0] - b[0], a[1] - b[1], a[2] - b[2]] }
 /// matrix with the given columns
 fn cols(c0: &P3, c1: &P3, c2: &P3) -> A<i128, 3> { let mut m = [[0i128; 3]; 3]; for i in 0..3 { m[i] = [c0[i] as i128, c1[i] as i128, c2[i] as i128]; } m }
 
-/// triangle vertices and origins are  n / 2^shift, directions are the integers themselves.
+/// one ray/triangle case. Triangle vertices and origins are  n * 2^sc, directions are the integers themselves.
 /// Float tiers run on the sub-space where the Cramer determinant is 0 or +-2^j: every operation of the
 /// code under test is then exact in binary floating point (all values are small integers times powers of two and
 /// the reciprocal of the determinant is exact), so the float verdict and value must equal the rational ones.
-fn ray_section<T: El>(s: &Section, verts: &[P3], origins: &[P3], dirs: &[P3], shift: u32, pre: &str) {
-    let den = 1i64 << shift;
+/// Returns false when the case was skipped (float tier, inexact reciprocal).
+#[allow(clippy::too_many_arguments)]
+#[inline(always)]
+fn ray_case<T: El>(s: &Section, cls: &mut Cls, site: &str, tri_n: [&P3; 3], tri: [Vec3<T>; 3], o: &P3, d: &P3, sc: i32, pre: &str, via_new: bool) -> Option<bool> {
+    let (v0, v1, v2) = (tri_n[0], tri_n[1], tri_n[2]);
+    let (e1, e2) = (sub3(v1, v0), sub3(v2, v0));
+    let rhs = sub3(o, v0);
+    let md: P3 = [-d[0], -d[1], -d[2]];
+    // u*e1 + v*e2 - t*d = o - v0   (Cramer, on the integer numerators; u, v are scale-free, t scales with 2^sc)
+    let det0 = det(&cols(&e1, &e2, &md));
+    if !T::EXACT && det0 != 0 && (det0.unsigned_abs() & (det0.unsigned_abs() - 1)) != 0 { cls.hit(T::NAME, "skipped-inexact-reciprocal"); return None; }
+    let degenerate = cross3(&[e1[0] as i128, e1[1] as i128, e1[2] as i128], &[e2[0] as i128, e2[1] as i128, e2[2] as i128]) == [0, 0, 0];
+    let (du, dv, dt) = (det(&cols(&rhs, &e2, &md)), det(&cols(&e1, &rhs, &md)), det(&cols(&e1, &e2, &rhs)));
+    let fq = qpow2(sc);
+    let (kind, want): (&'static str, Option<Q>) = if det0 == 0 {
+        (if degenerate { "degenerate-triangle" } else { "parallel" }, None)
+    } else {
+        let (u, v, t) = (Q::new(du, det0), Q::new(dv, det0), Q::new(dt, det0));
+        // oracle self-check: the solution satisfies the defining equation
+        for i in 0..3 {
+            let lhs = Q::int(o[i] as i128).add(Q::int(d[i] as i128).mul(t));
+            let rh = Q::int(v0[i] as i128).add(u.mul(Q::int(e1[i] as i128))).add(v.mul(Q::int(e2[i] as i128)));
+            assert!(lhs == rh, "oracle error: Cramer solution does not satisfy o + d t = v0 + u e1 + v e2");
+        }
+        let wsum = u.add(v);
+        if u >= Q::ZERO && v >= Q::ZERO && wsum <= Q::ONE {
+            let zeros = (u == Q::ZERO) as u8 + (v == Q::ZERO) as u8 + (wsum == Q::ONE) as u8;
+            if t < Q::ZERO { cls.hit(T::NAME, "hit-at-negative-t"); } else if t == Q::ZERO { cls.hit(T::NAME, "hit-at-origin"); }
+            (match zeros { 0 => "interior", 1 => "edge", _ => "vertex" }, Some(t.mul(fq)))
+        } else { ("miss", None) }
+    };
+    cls.hit(T::NAME, kind);
+    // vek's parallel test is |a| < epsilon with a = e1.(d x e2) = det0 * 2^(2 sc): outside it (or on a truly parallel case) the guard is idle
+    let guard_free = det0 == 0 || sc >= 0 || Q::int(det0.abs()).mul(fq).mul(fq) >= qpow2(-(T::GUARD_BITS as i32));
+    if pre == "small-scale:" { cls.hit(T::NAME, if guard_free { "outside-the-epsilon-guard" } else { "inside-the-epsilon-guard" }); }
+    let (ot, dt_) = (v3(&tvs::<T>(o, 1, sc)), v3(&tvs::<T>(d, 1, 0)));
+    let ray = if via_new { Ray::new(ot, dt_) } else { Ray { origin: ot, direction: dt_ } };
+    let inp = || json!({"triangle": [jps(v0, 3, 1, sc), jps(v1, 3, 1, sc), jps(v2, 3, 1, sc)], "origin": jps(o, 3, 1, sc), "direction": d});
+    let w = l1(v0) + l1(v1) + l1(v2) + l1(o) + l1(d) + sc.unsigned_abs() as u64;
+    let got = match catch(|| ray.triangle_intersection(tri)) {
+        Ok(g) => g,
+        // exact arithmetic has no inf/NaN: a division by zero means the parallel/degenerate guard let a = 0 through
+        Err(Caught::Unmodelled("division by zero")) => { emit(s, site, pre, guard_free, "division-by-zero", json!({"input": inp(), "case": kind, "cramer_det": det0.to_string()}), w); return Some(det0 != 0) }
+        Err(Caught::Unmodelled(why)) => { s.unmodelled(why); return Some(det0 != 0) }
+        Err(Caught::Panic(m)) => { s.violation_w(site, "panic", json!({"input": inp(), "panic": m}), w); return Some(det0 != 0) }
+    };
+    // Some(None): a non-finite float
+    let gq: Option<Option<Q>> = got.map(|x| x.exact());
+    if gq != want.map(Some) {
+        let class = match (gq, want) { (None, Some(_)) => "missed-hit", (Some(_), None) => "false-hit", _ => "wrong-distance" };
+        emit(s, site, pre, guard_free, class, json!({"input": inp(), "case": kind, "got": format!("{:?}", got), "want": format!("{:?}", want),
+            "cramer": {"det": format!("{}*2^{}", det0, 2 * sc), "u": format!("{}/{}", du, det0), "v": format!("{}/{}", dv, det0), "t": format!("{}/{}*2^{}", dt, det0, sc)}}), w);
+    }
+    if kind == "edge" && s.wants_sample() { s.sample(json!({"site": site, "input": inp(), "case": kind, "got": format!("{:?}", got), "cramer_t": format!("{:?}", want)})); }
+    Some(det0 != 0)
+}
+
+/// every ordered triple of `verts` x origins x directions
+fn ray_section<T: El>(s: &Section, verts: &[P3], origins: &[P3], dirs: &[P3], sc: i32, pre: &str) {
     let site = format!("Ray::triangle_intersection<{}>", T::NAME);
     let site = site.as_str();
     let pairs: Vec<(P3, P3)> = verts.iter().flat_map(|a| verts.iter().map(move |b| (*a, *b))).collect();
@@ -593,60 +738,245 @@ fn ray_section<T: El>(s: &Section, verts: &[P3], origins: &[P3], dirs: &[P3], sh
         let mut cls = Cls::default();
         let (mut n, mut nt) = (0u64, 0u64);
         for v2 in verts {
-            let (e1, e2) = (sub3(v1, v0), sub3(v2, v0));
-            let degenerate = cross3(&[e1[0] as i128, e1[1] as i128, e1[2] as i128], &[e2[0] as i128, e2[1] as i128, e2[2] as i128]) == [0, 0, 0];
-            let tri = [v3(&tv::<T>(v0, den)), v3(&tv::<T>(v1, den)), v3(&tv::<T>(v2, den))];
+            let tri = [v3(&tvs::<T>(v0, 1, sc)), v3(&tvs::<T>(v1, 1, sc)), v3(&tvs::<T>(v2, 1, sc))];
             for o in origins {
-                let rhs = sub3(o, v0);
                 for d in dirs {
-                    let md: P3 = [-d[0], -d[1], -d[2]];
-                    // u*e1 + v*e2 - t*d = o - v0   (Cramer, on the integer numerators; u, v are scale-free, t scales with 2^-shift)
-                    let det0 = det(&cols(&e1, &e2, &md));
-                    if !T::EXACT && det0 != 0 && (det0.unsigned_abs() & (det0.unsigned_abs() - 1)) != 0 { cls.hit(T::NAME, "skipped-inexact-reciprocal"); continue; }
-                    let (du, dv, dt) = (det(&cols(&rhs, &e2, &md)), det(&cols(&e1, &rhs, &md)), det(&cols(&e1, &e2, &rhs)));
-                    let (kind, want): (&'static str, Option<Q>) = if det0 == 0 {
-                        (if degenerate { "degenerate-triangle" } else { "parallel" }, None)
-                    } else {
-                        let (u, v, t) = (Q::new(du, det0), Q::new(dv, det0), Q::new(dt, det0));
-                        // oracle self-check: the solution satisfies the defining equation
-                        for i in 0..3 {
-                            let lhs = Q::int(o[i] as i128).add(Q::int(d[i] as i128).mul(t));
-                            let rh = Q::int(v0[i] as i128).add(u.mul(Q::int(e1[i] as i128))).add(v.mul(Q::int(e2[i] as i128)));
-                            assert!(lhs == rh, "oracle error: Cramer solution does not satisfy o + d t = v0 + u e1 + v e2");
-                        }
-                        let wsum = u.add(v);
-                        if u >= Q::ZERO && v >= Q::ZERO && wsum <= Q::ONE {
-                            let zeros = (u == Q::ZERO) as u8 + (v == Q::ZERO) as u8 + (wsum == Q::ONE) as u8;
-                            if t < Q::ZERO { cls.hit(T::NAME, "hit-at-negative-t"); } else if t == Q::ZERO { cls.hit(T::NAME, "hit-at-origin"); }
-                            (match zeros { 0 => "interior", 1 => "edge", _ => "vertex" }, Some(t.mul(Q::new(1, den as i128))))
-                        } else { ("miss", None) }
-                    };
-                    n += 1; if det0 != 0 { nt += 1; }
-                    cls.hit(T::NAME, kind);
-                    let ray = Ray { origin: v3(&tv::<T>(o, den)), direction: v3(&tv::<T>(d, 1)) };
-                    let inp = || json!({"triangle": [jp(v0, 3, den), jp(v1, 3, den), jp(v2, 3, den)], "origin": jp(o, 3, den), "direction": d});
-                    let w = l1(v0) + l1(v1) + l1(v2) + l1(o) + l1(d) + shift as u64;
-                    let got = match catch(|| ray.triangle_intersection(tri)) {
-                        Ok(g) => g,
-                        // exact arithmetic has no inf/NaN: a division by zero means the parallel/degenerate guard let a = 0 through
-                        Err(Caught::Unmodelled("division by zero")) => { s.violation_w(site, &format!("{}division-by-zero", pre), json!({"input": inp(), "case": kind, "cramer_det": det0.to_string()}), w); continue }
-                        Err(Caught::Unmodelled(why)) => { s.unmodelled(why); continue }
-                        Err(Caught::Panic(m)) => { s.violation_w(site, "panic", json!({"input": inp(), "panic": m}), w); continue }
-                    };
-                    // Some(None): a non-finite float
-                    let gq: Option<Option<Q>> = got.map(|x| x.exact());
-                    if gq != want.map(Some) {
-                        let class = match (gq, want) { (None, Some(_)) => "missed-hit", (Some(_), None) => "false-hit", _ => "wrong-distance" };
-                        s.violation_w(site, &format!("{}{}", pre, class), json!({"input": inp(), "case": kind, "got": format!("{:?}", got), "want": format!("{:?}", want),
-                            "cramer": {"det": format!("{}/{}^2", det0, den), "u": format!("{}/{}", du, det0), "v": format!("{}/{}", dv, det0), "t": format!("{}/({}*{})", dt, det0, den)}}), w);
-                    }
-                    if kind == "edge" && s.wants_sample() { s.sample(json!({"site": site, "input": inp(), "case": kind, "got": format!("{:?}", got), "cramer_t": format!("{:?}", want)})); }
+                    if let Some(nontrivial) = ray_case::<T>(s, &mut cls, site, [v0, v1, v2], tri, o, d, sc, pre, false) { n += 1; if nontrivial { nt += 1; } }
                 }
             }
         }
         s.evals(n, nt);
         cls.flush(s);
     });
+}
+
+/// an explicit list of (triangle, origin, direction) cases; the ray is built with Ray::new
+fn ray_list<T: El>(s: &Section, cases: &[([P3; 3], P3, P3)], sc: i32, pre: &str) {
+    let site = format!("Ray::triangle_intersection<{}>", T::NAME);
+    let site = site.as_str();
+    cases.par_chunks(4096).for_each(|chunk| {
+        let mut cls = Cls::default();
+        let (mut n, mut nt) = (0u64, 0u64);
+        for (tri, o, d) in chunk {
+            let tt = [v3(&tvs::<T>(&tri[0], 1, sc)), v3(&tvs::<T>(&tri[1], 1, sc)), v3(&tvs::<T>(&tri[2], 1, sc))];
+            if let Some(nontrivial) = ray_case::<T>(s, &mut cls, site, [&tri[0], &tri[1], &tri[2]], tt, o, d, sc, pre, true) { n += 1; if nontrivial { nt += 1; } }
+        }
+        s.evals(n, nt);
+        cls.flush(s);
+    });
+}
+
+
+// ---------------------------------------------------------------------------------------------
+// 9. constructors, mixed position/extent types, aimed rays (added by the audit)
+
+/// (v0; a; b): triangle v0, v0 + 4a, v0 + 4b
+const TRIS: [[P3; 3]; 4] = [
+    [[-3, 1, 2], [2, -1, 1], [1, 1, -2]],
+    [[2, -5, -1], [1, 0, 0], [0, 3, 1]],
+    [[0, 0, 7], [3, 2, -1], [-2, 3, 1]],
+    [[1, -2, 3], [1, 2, -1], [2, 4, -2]],
+];
+fn aimed_cases(th: bool, dmax: i64) -> Vec<([P3; 3], P3, P3)> {
+    let dirs: Vec<P3> = cube(&range(-dmax, dmax, 1), 3).into_iter().filter(|d| *d != [0, 0, 0]).collect();
+    let perms: [[usize; 3]; 6] = [[0, 1, 2], [0, 2, 1], [1, 0, 2], [1, 2, 0], [2, 0, 1], [2, 1, 0]];
+    let ts: &[i64] = if th { &[-2, -1, 0, 1, 3] } else { &[-2, 0, 1, 3] };
+    let mut out = Vec::new();
+    for [v0, a, b] in TRIS {
+        let vs: [P3; 3] = [v0, [0, 1, 2].map(|i| v0[i] + 4 * a[i]), [0, 1, 2].map(|i| v0[i] + 4 * b[i])];
+        for pm in perms {
+            let tri = [vs[pm[0]], vs[pm[1]], vs[pm[2]]];
+            for i in -1..=5i64 { for j in -1..=5i64 {
+                let target: P3 = [0, 1, 2].map(|k| v0[k] + i * a[k] + j * b[k]);
+                for d in &dirs { for &t in ts {
+                    out.push((tri, [0, 1, 2].map(|k| target[k] - t * d[k]), *d));
+                } }
+            } }
+        }
+    }
+    out
+}
+
+fn ctors_tier<T: El>(s: &Section, centres: &[P3], radii: &[i64]) {
+    for c in centres {
+        let ct = tv::<T>(c, 2);
+        let nontrivial = c[0] != c[1];
+        let dirn: P3 = [c[1] + 1, c[2] + 2, c[0] + 3];
+        let dt = tv::<T>(&dirn, 2);
+        s.eval(nontrivial);
+        let site = format!("Ray::new<{}>", T::NAME);
+        if let Some(r) = s.call(&site, || json!({"origin": jp(c, 3, 2), "direction": jp(&dirn, 3, 2)}), || Ray::new(v3(&ct), v3(&dt))) {
+            if [r.origin.x, r.origin.y, r.origin.z] != ct || [r.direction.x, r.direction.y, r.direction.z] != dt {
+                s.violation_w(&site, "wrong-field", json!({"origin": jp(c, 3, 2), "direction": jp(&dirn, 3, 2), "got": jd(&r)}), l1(c));
+            }
+        }
+        let (one, zero) = (T::frac(1, 1), T::frac(0, 1));
+        for (k, name) in ["unit", "point"].iter().enumerate() {
+            let want_r = if k == 0 { one } else { zero };
+            s.eval(nontrivial);
+            let site = format!("Disk::{}<{}>", name, T::NAME);
+            if let Some(d) = s.call(&site, || json!({"center": jp(c, 2, 2)}), || if k == 0 { Disk::<T, T>::unit(Vec2 { x: ct[0], y: ct[1] }) } else { Disk::<T, T>::point(Vec2 { x: ct[0], y: ct[1] }) }) {
+                if d.center.x != ct[0] || d.center.y != ct[1] || d.radius != want_r { s.violation_w(&site, "wrong-field", json!({"center": jp(c, 2, 2), "got": jd(&d)}), l1(c)); }
+            }
+            s.eval(nontrivial);
+            let site = format!("Sphere::{}<{}>", name, T::NAME);
+            if let Some(d) = s.call(&site, || json!({"center": jp(c, 3, 2)}), || if k == 0 { Sphere::<T, T>::unit(v3(&ct)) } else { Sphere::<T, T>::point(v3(&ct)) }) {
+                if [d.center.x, d.center.y, d.center.z] != ct || d.radius != want_r { s.violation_w(&site, "wrong-field", json!({"center": jp(c, 3, 2), "got": jd(&d)}), l1(c)); }
+            }
+        }
+        for &r in radii {
+            let rt = T::frac(r, 2);
+            s.eval(nontrivial);
+            let site = format!("Disk::new<{}>", T::NAME);
+            if let Some(d) = s.call(&site, || json!({"center": jp(c, 2, 2), "radius": jn(r, 2)}), || Disk::new(Vec2 { x: ct[0], y: ct[1] }, rt)) {
+                if d.center.x != ct[0] || d.center.y != ct[1] || d.radius != rt { s.violation_w(&site, "wrong-field", json!({"center": jp(c, 2, 2), "radius": jn(r, 2), "got": jd(&d)}), l1(c) + r.unsigned_abs()); }
+            }
+            s.eval(nontrivial);
+            let site = format!("Sphere::new<{}>", T::NAME);
+            if let Some(d) = s.call(&site, || json!({"center": jp(c, 3, 2), "radius": jn(r, 2)}), || Sphere::new(v3(&ct), rt)) {
+                if [d.center.x, d.center.y, d.center.z] != ct || d.radius != rt { s.violation_w(&site, "wrong-field", json!({"center": jp(c, 3, 2), "radius": jn(r, 2), "got": jd(&d)}), l1(c) + r.unsigned_abs()); }
+            }
+            s.class(T::NAME);
+        }
+    }
+}
+fn ctors_int(s: &Section, centres: &[P3], radii: &[i64]) {
+    for c in centres {
+        let (x, y, z) = (c[0] as i32, c[1] as i32, c[2] as i32);
+        let nontrivial = x != y;
+        let w = l1(c);
+        s.eval(nontrivial);
+        if let Some(d) = s.call("Disk::unit<i32>", || json!({"center": [x, y]}), || Disk::<i32, i32>::unit(Vec2 { x, y })) {
+            if (d.center.x, d.center.y, d.radius) != (x, y, 1) { s.violation_w("Disk::unit<i32>", "wrong-field", json!({"center": [x, y], "got": jd(&d)}), w); }
+        }
+        s.eval(nontrivial);
+        if let Some(d) = s.call("Disk::point<i32>", || json!({"center": [x, y]}), || Disk::<i32, i32>::point(Vec2 { x, y })) {
+            if (d.center.x, d.center.y, d.radius) != (x, y, 0) { s.violation_w("Disk::point<i32>", "wrong-field", json!({"center": [x, y], "got": jd(&d)}), w); }
+        }
+        s.eval(nontrivial);
+        if let Some(d) = s.call("Sphere::unit<i32>", || json!({"center": [x, y, z]}), || Sphere::<i32, i32>::unit(Vec3 { x, y, z })) {
+            if (d.center.x, d.center.y, d.center.z, d.radius) != (x, y, z, 1) { s.violation_w("Sphere::unit<i32>", "wrong-field", json!({"center": [x, y, z], "got": jd(&d)}), w); }
+        }
+        s.eval(nontrivial);
+        if let Some(d) = s.call("Sphere::point<i32>", || json!({"center": [x, y, z]}), || Sphere::<i32, i32>::point(Vec3 { x, y, z })) {
+            if (d.center.x, d.center.y, d.center.z, d.radius) != (x, y, z, 0) { s.violation_w("Sphere::point<i32>", "wrong-field", json!({"center": [x, y, z], "got": jd(&d)}), w); }
+        }
+        // range conversions on a non-float element type (From<Range> / into_range are generic in T without bounds)
+        {
+            let (a2, b2) = (Vec2 { x, y }, Vec2 { x: y + 1, y: z + 2 });
+            s.eval(true);
+            if let Some((sg, r)) = s.call("LineSegment2::From<Range>/into_range<i32>", || json!({"start": [x, y], "end": [y + 1, z + 2]}), || { let sg = LineSegment2::from(Range { start: a2, end: b2 }); (sg, sg.into_range()) }) {
+                if (sg.start.x, sg.start.y, sg.end.x, sg.end.y, r.start.x, r.start.y, r.end.x, r.end.y) != (x, y, y + 1, z + 2, x, y, y + 1, z + 2) { s.violation_w("LineSegment2::From<Range>/into_range<i32>", "wrong-endpoints", json!({"start": [x, y], "end": [y + 1, z + 2], "got": jd(&sg)}), w); }
+            }
+            let (a3, b3) = (Vec3 { x, y, z }, Vec3 { x: y + 1, y: z + 2, z: x + 3 });
+            s.eval(true);
+            if let Some((sg, r)) = s.call("LineSegment3::From<Range>/into_range<i32>", || json!({"start": [x, y, z], "end": [y + 1, z + 2, x + 3]}), || { let sg = LineSegment3::from(Range { start: a3, end: b3 }); (sg, sg.into_range()) }) {
+                if (sg.start.x, sg.start.y, sg.start.z, sg.end.x, sg.end.y, sg.end.z) != (x, y, z, y + 1, z + 2, x + 3) || (r.start.x, r.start.y, r.start.z, r.end.x, r.end.y, r.end.z) != (x, y, z, y + 1, z + 2, x + 3) { s.violation_w("LineSegment3::From<Range>/into_range<i32>", "wrong-endpoints", json!({"start": [x, y, z], "end": [y + 1, z + 2, x + 3], "got": jd(&sg)}), w); }
+            }
+        }
+        // mixed instantiations
+        s.eval(nontrivial);
+        if let Some(d) = s.call("Disk::unit<i32,u8>", || json!({"center": [x, y]}), || Disk::<i32, u8>::unit(Vec2 { x, y })) {
+            if (d.center.x, d.center.y, d.radius) != (x, y, 1u8) { s.violation_w("Disk::unit<i32,u8>", "wrong-field", json!({"center": [x, y], "got": jd(&d)}), w); }
+        }
+        s.eval(nontrivial);
+        if let Some(d) = s.call("Sphere::point<f64,f32>", || json!({"center": [x, y, z]}), || Sphere::<f64, f32>::point(Vec3 { x: x as f64 / 2.0, y: y as f64 / 2.0, z: z as f64 / 2.0 })) {
+            if (d.center.x, d.center.y, d.center.z, d.radius) != (x as f64 / 2.0, y as f64 / 2.0, z as f64 / 2.0, 0f32) { s.violation_w("Sphere::point<f64,f32>", "wrong-field", json!({"center": [x, y, z], "got": jd(&d)}), w); }
+        }
+        for &r in radii {
+            let ri = r as i32;
+            s.eval(nontrivial);
+            if let Some(d) = s.call("Disk::new<i32>", || json!({"center": [x, y], "radius": ri}), || Disk::new(Vec2 { x, y }, ri)) {
+                if (d.center.x, d.center.y, d.radius) != (x, y, ri) { s.violation_w("Disk::new<i32>", "wrong-field", json!({"center": [x, y], "radius": ri, "got": jd(&d)}), w + r.unsigned_abs()); }
+            }
+            s.eval(nontrivial);
+            if let Some(d) = s.call("Sphere::new<i32>", || json!({"center": [x, y, z], "radius": ri}), || Sphere::new(Vec3 { x, y, z }, ri)) {
+                if (d.center.x, d.center.y, d.center.z, d.radius) != (x, y, z, ri) { s.violation_w("Sphere::new<i32>", "wrong-field", json!({"center": [x, y, z], "radius": ri, "got": jd(&d)}), w + r.unsigned_abs()); }
+            }
+            s.class("i32");
+            let ru = r.unsigned_abs() as u8;
+            s.eval(nontrivial);
+            if let Some(d) = s.call("Disk::new<i32,u8>", || json!({"center": [x, y], "radius": ru}), || Disk::new(Vec2 { x, y }, ru)) {
+                if (d.center.x, d.center.y, d.radius) != (x, y, ru) { s.violation_w("Disk::new<i32,u8>", "wrong-field", json!({"center": [x, y], "radius": ru, "got": jd(&d)}), w + r.unsigned_abs()); }
+            }
+            let rf = r as f32 / 2.0;
+            s.eval(nontrivial);
+            if let Some(d) = s.call("Sphere::new<f64,f32>", || json!({"center": [x, y, z], "radius": rf}), || Sphere::new(Vec3 { x: x as f64 / 2.0, y: y as f64 / 2.0, z: z as f64 / 2.0 }, rf)) {
+                if (d.center.x, d.center.y, d.center.z, d.radius) != (x as f64 / 2.0, y as f64 / 2.0, z as f64 / 2.0, rf) { s.violation_w("Sphere::new<f64,f32>", "wrong-field", json!({"center": [x, y, z], "radius": rf, "got": jd(&d)}), w + r.unsigned_abs()); }
+            }
+            s.class("mixed");
+        }
+    }
+}
+
+/// rect / rect3 / diameter of one (P, E) instantiation; `$p`/`$e` convert the i64 model values (positions in units of 1/$den)
+macro_rules! mixed_bounds {
+    ($s:ident, $tag:expr, $P:ty, $E:ty, $den:expr, $p:expr, $e:expr) => {{
+        let (fp, fe): (fn(i64) -> $P, fn(i64) -> $E) = ($p, $e);
+        for c in cube(&range(-3, 3, 1), 3) {
+            for r in [0i64, 1, 2, 5, 100] {
+                let w = l1(&c) + r as u64;
+                let inp = || json!({"center": jp(&c, 3, $den), "radius": r, "types": $tag});
+                if c[2] == 0 {
+                    let dk: Disk<$P, $E> = Disk { center: Vec2 { x: fp(c[0]), y: fp(c[1]) }, radius: fe(r) };
+                    let site = format!("Disk::rect<{}>", $tag);
+                    $s.eval(r != 0);
+                    if let Some(rc) = $s.call(&site, inp, || dk.rect()) {
+                        if (rc.x, rc.y, rc.w, rc.h) != (fp(c[0] - r * $den), fp(c[1] - r * $den), fe(2 * r), fe(2 * r)) { $s.violation_w(&site, "wrong-bounds", json!({"input": inp(), "got": jd(&rc)}), w); }
+                    }
+                    let site = format!("Disk::diameter<{}>", $tag);
+                    $s.eval(r != 0);
+                    if let Some(dm) = $s.call(&site, inp, || dk.diameter()) {
+                        if dm != fe(2 * r) { $s.violation_w(&site, "wrong-value", json!({"input": inp(), "got": jd(&dm)}), w); }
+                    }
+                }
+                let sp: Sphere<$P, $E> = Sphere { center: Vec3 { x: fp(c[0]), y: fp(c[1]), z: fp(c[2]) }, radius: fe(r) };
+                let site = format!("Sphere::rect3<{}>", $tag);
+                $s.eval(r != 0);
+                if let Some(rc) = $s.call(&site, inp, || sp.rect3()) {
+                    if (rc.x, rc.y, rc.z, rc.w, rc.h, rc.d) != (fp(c[0] - r * $den), fp(c[1] - r * $den), fp(c[2] - r * $den), fe(2 * r), fe(2 * r), fe(2 * r)) { $s.violation_w(&site, "wrong-bounds", json!({"input": inp(), "got": jd(&rc)}), w); }
+                }
+                let site = format!("Sphere::diameter<{}>", $tag);
+                $s.eval(r != 0);
+                if let Some(dm) = $s.call(&site, inp, || sp.diameter()) {
+                    if dm != fe(2 * r) { $s.violation_w(&site, "wrong-value", json!({"input": inp(), "got": jd(&dm)}), w); }
+                }
+                $s.class(&format!("rect/{}", $tag));
+            }
+        }
+    }};
+}
+fn mixed_section(s: &Section) {
+    mixed_bounds!(s, "i64,i32", i64, i32, 1, |v| v, |v| v as i32);
+    mixed_bounds!(s, "i32,u16", i32, u16, 1, |v| v as i32, |v| v as u16);
+    mixed_bounds!(s, "f64,f32", f64, f32, 2, |v| v as f64 / 2.0, |v| v as f32);
+    mixed_bounds!(s, "X,u8", X, u8, 2, |v| q(v as i128, 2), |v| v as u8);
+    // measures: P plays no role
+    for k in 0..=40i64 {
+        let rq = Q::new(k as i128, 4);
+        let inp = || json!({"radius": jn(k, 4)});
+        let w = k as u64;
+        let d1: Disk<i32, f64> = Disk { center: Vec2 { x: 3, y: -7 }, radius: k as f64 / 4.0 };
+        let d2_: Disk<u8, f32> = Disk { center: Vec2 { x: 3, y: 200 }, radius: k as f32 / 4.0 };
+        let s1: Sphere<i32, f32> = Sphere { center: Vec3 { x: 3, y: -7, z: 5 }, radius: k as f32 / 4.0 };
+        let s2: Sphere<i64, f64> = Sphere { center: Vec3 { x: 3, y: -7, z: 5 }, radius: k as f64 / 4.0 };
+        s.eval(k != 0);
+        if let Some(g) = s.call("Disk::circumference<i32,f64>", inp, || d1.circumference()) { check_measure::<f64>(s, "Disk::circumference<i32,f64>", "wrong-value", &inp, g, circ_coef(rq), 0, 1, k == 0, true, w); }
+        s.eval(k != 0);
+        if let Some(g) = s.call("Disk::area<i32,f64>", inp, || d1.area()) { check_measure::<f64>(s, "Disk::area<i32,f64>", "wrong-value", &inp, g, area_coef(rq), 0, 2, k == 0, true, w); }
+        s.eval(k != 0);
+        if let Some(g) = s.call("Disk::circumference<u8,f32>", inp, || d2_.circumference()) { check_measure::<f32>(s, "Disk::circumference<u8,f32>", "wrong-value", &inp, g, circ_coef(rq), 0, 1, k == 0, true, w); }
+        s.eval(k != 0);
+        if let Some(g) = s.call("Disk::area<u8,f32>", inp, || d2_.area()) { check_measure::<f32>(s, "Disk::area<u8,f32>", "wrong-value", &inp, g, area_coef(rq), 0, 2, k == 0, true, w); }
+        s.eval(k != 0);
+        if let Some(g) = s.call("Sphere::surface_area<i32,f32>", inp, || s1.surface_area()) { check_measure::<f32>(s, "Sphere::surface_area<i32,f32>", "wrong-value", &inp, g, surf_coef(rq), 0, 2, k == 0, true, w); }
+        s.eval(k != 0);
+        if let Some(g) = s.call("Sphere::volume<i32,f32>", inp, || s1.volume()) { check_measure::<f32>(s, "Sphere::volume<i32,f32>", "wrong-value", &inp, g, vol_coef(rq), 0, 3, k == 0, true, w); }
+        s.eval(k != 0);
+        if let Some(g) = s.call("Sphere::surface_area<i64,f64>", inp, || s2.surface_area()) { check_measure::<f64>(s, "Sphere::surface_area<i64,f64>", "wrong-value", &inp, g, surf_coef(rq), 0, 2, k == 0, true, w); }
+        s.eval(k != 0);
+        if let Some(g) = s.call("Sphere::volume<i64,f64>", inp, || s2.volume()) { check_measure::<f64>(s, "Sphere::volume<i64,f64>", "wrong-value", &inp, g, vol_coef(rq), 0, 3, k == 0, true, w); }
+    }
 }
 
 // ---------------------------------------------------------------------------------------------
@@ -667,12 +997,12 @@ fn main() {
         &format!("every centre on the grid ({} Disk centres in 2-D, {} Sphere centres in 3-D; coordinates in {{-3..3}} resp. quick {{-2..2}}^3, thorough adds half-integers in 2-D) x radii {:?}/2 x every grid point as query, tiers f64, f32, X; oracle: integer comparison 4d^2 <= 4r^2; {}; non-trivial: query point differs from the centre", c2.len(), c3.len(), radii, exact_note),
         true, false, |s| {
             require_tiers(s, &tiers, &["inside", "boundary", "outside"]);
-            contains_tier::<f64, Disk<f64, f64>>(s, &c2, &radii, &c2);
-            contains_tier::<f32, Disk<f32, f32>>(s, &c2, &radii, &c2);
-            contains_tier::<X, Disk<X, X>>(s, &c2, &radii, &c2);
-            contains_tier::<f64, Sphere<f64, f64>>(s, &c3, &radii, &c3);
-            contains_tier::<f32, Sphere<f32, f32>>(s, &c3, &radii, &c3);
-            contains_tier::<X, Sphere<X, X>>(s, &c3, &radii, &c3);
+            contains_tier::<f64, Disk<f64, f64>>(s, &c2, &radii, &c2, 0, "");
+            contains_tier::<f32, Disk<f32, f32>>(s, &c2, &radii, &c2, 0, "");
+            contains_tier::<X, Disk<X, X>>(s, &c2, &radii, &c2, 0, "");
+            contains_tier::<f64, Sphere<f64, f64>>(s, &c3, &radii, &c3, 0, "");
+            contains_tier::<f32, Sphere<f32, f32>>(s, &c3, &radii, &c3, 0, "");
+            contains_tier::<X, Sphere<X, X>>(s, &c3, &radii, &c3, 0, "");
             s.meta("grids_half_units", json!({"disk": g2, "sphere": g3, "radii": radii}));
         });
 
@@ -680,37 +1010,38 @@ fn main() {
         &format!("every ordered pair of centres on the grid ({}^2 Disk pairs, {}^2 Sphere pairs) x every ordered pair of radii from {:?}/2, tiers f64, f32, X; oracle: integer comparison 4d^2 <= (2r1+2r2)^2; {}; non-trivial: distinct centres", c2.len(), c3.len(), radii, exact_note),
         true, false, |s| {
             require_tiers(s, &tiers, &["overlapping", "tangent", "disjoint"]);
-            collides_tier::<f64, Disk<f64, f64>>(s, &c2, &radii);
-            collides_tier::<f32, Disk<f32, f32>>(s, &c2, &radii);
-            collides_tier::<X, Disk<X, X>>(s, &c2, &radii);
-            collides_tier::<f64, Sphere<f64, f64>>(s, &c3, &radii);
-            collides_tier::<f32, Sphere<f32, f32>>(s, &c3, &radii);
-            collides_tier::<X, Sphere<X, X>>(s, &c3, &radii);
+            collides_tier::<f64, Disk<f64, f64>>(s, &c2, &radii, 0, "");
+            collides_tier::<f32, Disk<f32, f32>>(s, &c2, &radii, 0, "");
+            collides_tier::<X, Disk<X, X>>(s, &c2, &radii, 0, "");
+            collides_tier::<f64, Sphere<f64, f64>>(s, &c3, &radii, 0, "");
+            collides_tier::<f32, Sphere<f32, f32>>(s, &c3, &radii, 0, "");
+            collides_tier::<X, Sphere<X, X>>(s, &c3, &radii, 0, "");
         });
 
     rep.section("Disk/Sphere collision_vector_with_*",
         "same pairs of shapes as the collides section minus coincident centres (the vector's direction is undefined there: 0/0, excluded and counted); claim: after translating OTHER by the returned vector (vek: v = other.center - self.center, result v/|v| * (r1+r2-|v|)) the centre distance is r1+r2. X: exact equality of squared distances on the Pythagorean subset (others unmodelled: irrational sqrt); f64/f32: new distance recomputed in f64 from the returned fields, bound 256*eps*(r1+r2+d+1) (inputs exact, the code performs one sqrt, one division and a handful of +,* per component); non-trivial: shapes not already tangent (vector non-zero)",
         true, false, |s| {
             require_tiers(s, &tiers, &["penetrating", "already-tangent", "separated"]);
-            cv_tier::<f64, Disk<f64, f64>>(s, &c2, &radii);
-            cv_tier::<f32, Disk<f32, f32>>(s, &c2, &radii);
-            cv_tier::<X, Disk<X, X>>(s, &c2, &radii);
-            cv_tier::<f64, Sphere<f64, f64>>(s, &c3, &radii);
-            cv_tier::<f32, Sphere<f32, f32>>(s, &c3, &radii);
-            cv_tier::<X, Sphere<X, X>>(s, &c3, &radii);
+            cv_tier::<f64, Disk<f64, f64>>(s, &c2, &radii, 0, "");
+            cv_tier::<f32, Disk<f32, f32>>(s, &c2, &radii, 0, "");
+            cv_tier::<X, Disk<X, X>>(s, &c2, &radii, 0, "");
+            cv_tier::<f64, Sphere<f64, f64>>(s, &c3, &radii, 0, "");
+            cv_tier::<f32, Sphere<f32, f32>>(s, &c3, &radii, 0, "");
+            cv_tier::<X, Sphere<X, X>>(s, &c3, &radii, 0, "");
         });
 
     rep.section("Disk/Sphere rect/rect3/aabr/aabb/diameter",
-        "every centre x radius of the grids above, tiers f64, f32, X (half-integers: all additions exact, so floats are compared with ==) plus Disk<i32,i32>/Sphere<i32,i32> on integer centres {-3..3}^d x radii {0,1,2,5}: rect position = centre - r, extent = 2r, position + extent = centre + r per axis; aabr/aabb min = centre - r, max = centre + r; diameter = 2r; non-trivial: r > 0",
+        "every centre x radius of the grids above, tiers f64, f32, X (half-integers: all additions exact, so floats are compared with ==) plus Disk<i32,i32>/Sphere<i32,i32> on integer centres {-3..3}^d x radii {0,1,2,5} (thorough: also {-6..6}^d x {0,1,2,3,5,8,13,1000}): rect position = centre - r, extent = 2r, position + extent = centre + r per axis; aabr/aabb min = centre - r, max = centre + r; diameter = 2r; non-trivial: r > 0",
         true, false, |s| {
             require_tiers(s, &["f64", "f32", "X", "i32"], &["radius-zero", "radius-positive"]);
-            bounds_tier::<f64, Disk<f64, f64>>(s, &c2, &radii);
-            bounds_tier::<f32, Disk<f32, f32>>(s, &c2, &radii);
-            bounds_tier::<X, Disk<X, X>>(s, &c2, &radii);
-            bounds_tier::<f64, Sphere<f64, f64>>(s, &c3, &radii);
-            bounds_tier::<f32, Sphere<f32, f32>>(s, &c3, &radii);
-            bounds_tier::<X, Sphere<X, X>>(s, &c3, &radii);
+            bounds_tier::<f64, Disk<f64, f64>>(s, &c2, &radii, 0, "");
+            bounds_tier::<f32, Disk<f32, f32>>(s, &c2, &radii, 0, "");
+            bounds_tier::<X, Disk<X, X>>(s, &c2, &radii, 0, "");
+            bounds_tier::<f64, Sphere<f64, f64>>(s, &c3, &radii, 0, "");
+            bounds_tier::<f32, Sphere<f32, f32>>(s, &c3, &radii, 0, "");
+            bounds_tier::<X, Sphere<X, X>>(s, &c3, &radii, 0, "");
             bounds_i32(s, &range(-3, 3, 1), &[0, 1, 2, 5]);
+            if th { bounds_i32(s, &range(-6, 6, 1), &[0, 1, 2, 3, 5, 8, 13, 1000]); }
         });
 
     let (den, maxr) = if th { (8i64, 50i64) } else { (4, 10) };
@@ -721,16 +1052,24 @@ fn main() {
         &format!("radii k/{} for k = 0..={} (all tiers) and k/3, k/7 (X only). X: FloatConst::PI() is the angle token 2*(pi/2); the result must be, structurally, the token (coefficient)*pi with coefficient 2r, r^2, 4r^2, 4r^3/3 computed in Q (no numeric value of pi involved). f32/f64: the returned float, converted exactly to a rational, must be within 4*eps*|want| of coefficient*pi with pi to 18 digits, decided in checked integer arithmetic (vek performs at most 4 roundings plus the rounded constant: relative error < 5.4 * eps/2); non-trivial: r > 0", den, maxr * den),
         true, false, |s| {
             require_tiers(s, &tiers, &["radius-zero", "radius-positive"]);
-            measures_tier::<f64, Disk<f64, f64>>(s, &fr);
-            measures_tier::<f32, Disk<f32, f32>>(s, &fr);
-            measures_tier::<X, Disk<X, X>>(s, &xr);
-            measures_tier::<f64, Sphere<f64, f64>>(s, &fr);
-            measures_tier::<f32, Sphere<f32, f32>>(s, &fr);
-            measures_tier::<X, Sphere<X, X>>(s, &xr);
+            measures_tier::<f64, Disk<f64, f64>>(s, &fr, &[0, 0, 0], 0, "");
+            measures_tier::<f32, Disk<f32, f32>>(s, &fr, &[0, 0, 0], 0, "");
+            measures_tier::<X, Disk<X, X>>(s, &xr, &[0, 0, 0], 0, "");
+            measures_tier::<f64, Sphere<f64, f64>>(s, &fr, &[0, 0, 0], 0, "");
+            measures_tier::<f32, Sphere<f32, f32>>(s, &fr, &[0, 0, 0], 0, "");
+            measures_tier::<X, Sphere<X, X>>(s, &xr, &[0, 0, 0], 0, "");
+            // the measures do not depend on where the shape is: same radii, off-origin centre with three distinct coordinates
+            let off: P3 = [3, -7, 5];
+            measures_tier::<f64, Disk<f64, f64>>(s, &fr, &off, 0, "off-centre:");
+            measures_tier::<f32, Disk<f32, f32>>(s, &fr, &off, 0, "off-centre:");
+            measures_tier::<X, Disk<X, X>>(s, &xr, &off, 0, "off-centre:");
+            measures_tier::<f64, Sphere<f64, f64>>(s, &fr, &off, 0, "off-centre:");
+            measures_tier::<f32, Sphere<f32, f32>>(s, &fr, &off, 0, "off-centre:");
+            measures_tier::<X, Sphere<X, X>>(s, &xr, &off, 0, "off-centre:");
         });
 
-    let seg_classes = ["degenerate-segment", "beyond-start", "foot-at-start", "interior-foot", "foot-at-end", "beyond-end", "point-on-segment", "range-roundtrip", "range-roundtrip-degenerate", "X/distance-exact", "f64/interior-foot", "f32/interior-foot", "f64/degenerate-segment", "f32/degenerate-segment"];
-    let seg_rule = "X: projected_point (i) lies on the segment (collinear with and between the end points; equals start for a degenerate segment), (ii) no sampled point start + (k/24)(end-start), k = 0..24, is strictly nearer to p, (iii) its squared distance to p equals the closed-form minimum (|p-a|^2 if (p-a).e <= 0, |p-b|^2 if >= |e|^2, else |p-a|^2 - ((p-a).e)^2/|e|^2); distance_to_point: X exact (d >= 0 and d^2 = that minimum) where the minimum is a rational square, unmodelled (irrational sqrt) otherwise; f64/f32: within 256*eps*(|a|+|b|+|p|) (1-norms) of sqrt(minimum) (inputs exact; the code does one division, one sqrt and a few +,*); From<Range>/into_range keep start and end field for field; non-trivial: non-degenerate segment";
+    let seg_classes = ["degenerate-segment", "beyond-start", "foot-at-start", "interior-foot", "foot-at-end", "beyond-end", "point-on-segment", "range-roundtrip", "range-roundtrip-degenerate", "X/distance-exact", "f64/interior-foot", "f32/interior-foot", "f64/degenerate-segment", "f32/degenerate-segment", "f64/projected-point", "f32/projected-point"];
+    let seg_rule = "X: projected_point (i) lies on the segment (collinear with and between the end points; equals start for a degenerate segment), (ii) no sampled point start + (k/24)(end-start), k = 0..24, is strictly nearer to p, (iii) its squared distance to p equals the closed-form minimum (|p-a|^2 if (p-a).e <= 0, |p-b|^2 if >= |e|^2, else |p-a|^2 - ((p-a).e)^2/|e|^2); distance_to_point: X exact (d >= 0 and d^2 = that minimum) where the minimum is a rational square, unmodelled (irrational sqrt) otherwise; f64/f32: within 256*eps*(|a|+|b|+|p|) (1-norms) of sqrt(minimum) (inputs exact; the code does one division, one sqrt and a few +,*), and projected_point<f64/f32> itself: every component within the same bound of the exact foot (start exactly for a degenerate segment); From<Range>/into_range keep start and end field for field; non-trivial: non-degenerate segment";
     let (e2v, p2v) = if th { (range(-3, 3, 1), range(-4, 4, 1)) } else { (range(-2, 2, 1), range(-3, 3, 1)) };
     rep.section("LineSegment2 projected_point/distance_to_point/range",
         &format!("all {} ordered pairs of end points on {{{}..{}}}^2 (degenerate included) x all points of {{{}..{}}}^2. {}", e2v.len().pow(4), e2v[0], e2v[e2v.len() - 1], p2v[0], p2v[p2v.len() - 1], seg_rule),
@@ -771,27 +1110,193 @@ fn main() {
     //  and so is every oracle above: exact in X, and exact / equally conditioned in binary floating point)
     let (sx, sf64, sf32): (Vec<u32>, Vec<u32>, Vec<u32>) = if th { ((1..=30).collect(), (1..=30).collect(), (1..=15).collect()) } else { (vec![13, 25, 26, 27], vec![13, 25, 26, 27], vec![6, 11, 12]) };
     rep.section("small shapes: LineSegment2/3 at scale 2^-k",
-        &format!("coordinates n/2^k with n on the integer grids: 2-D end points {{-1..1}}^2 (all 81 ordered pairs) x points {{-2..2}}^2, 3-D end points {{0,1}}^3 (all 64 pairs) x points {{-1..2}}^3; k in {:?} (X), {:?} (f64), {:?} (f32). Same assertions and oracles as the two LineSegment sections (the oracle is evaluated on the integer numerators and scaled exactly; the float bound scales with the coordinates). Violation classes carry the prefix 'small-scale:'. non-trivial: non-degenerate segment", sx, sf64, sf32),
+        &format!("coordinates n/2^k with n on the integer grids: 2-D end points {{-1..1}}^2 (all 81 ordered pairs) x points {{-2..2}}^2, 3-D end points {{0,1}}^3 (all 64 pairs) x points {{-1..2}}^3; k in {:?} (X), {:?} (f64), {:?} (f32). Same assertions and oracles as the two LineSegment sections (the oracle is evaluated on the integer numerators and scaled exactly; the float bound scales with the coordinates). Violation classes carry the prefix 'small-scale:'; a violation on a segment that is OUTSIDE vek's absolute-epsilon degeneracy guard (len_sq > 2^-52, f32 2^-23) is reported a second time with the prefix 'above-guard:' so that the known guard findings cannot mask another defect; the float tiers also assert projected_point itself (each component within 256*eps*(|a|+|b|+|p|) of the exact foot, start exactly for a degenerate segment) outside the guard region. non-trivial: non-degenerate segment", sx, sf64, sf32),
         true, false, |s| {
             s.require_classes(&["degenerate-segment", "beyond-start", "foot-at-start", "interior-foot", "foot-at-end", "beyond-end", "point-on-segment", "X/distance-exact", "f64/interior-foot", "f32/interior-foot"]);
+            s.require_classes(&["outside-the-epsilon-guard", "inside-the-epsilon-guard", "f64/projected-point", "f32/projected-point"]);
             let (e2, p2) = (cube(&[-1, 0, 1], 2), cube(&[-2, -1, 0, 1, 2], 2));
             let (e3, p3) = (cube(&[0, 1], 3), cube(&[-1, 0, 1, 2], 3));
-            for &k in &sx { seg_exact::<LineSegment2<X>>(s, &e2, &p2, k, "small-scale:"); seg_exact::<LineSegment3<X>>(s, &e3, &p3, k, "small-scale:"); }
-            for &k in &sf64 { seg_float::<f64, LineSegment2<f64>>(s, &e2, &p2, k, "small-scale:"); seg_float::<f64, LineSegment3<f64>>(s, &e3, &p3, k, "small-scale:"); }
-            for &k in &sf32 { seg_float::<f32, LineSegment2<f32>>(s, &e2, &p2, k, "small-scale:"); seg_float::<f32, LineSegment3<f32>>(s, &e3, &p3, k, "small-scale:"); }
+            for &k in &sx { seg_exact::<LineSegment2<X>>(s, &e2, &p2, -(k as i32), "small-scale:"); seg_exact::<LineSegment3<X>>(s, &e3, &p3, -(k as i32), "small-scale:"); }
+            for &k in &sf64 { seg_float::<f64, LineSegment2<f64>>(s, &e2, &p2, -(k as i32), "small-scale:"); seg_float::<f64, LineSegment3<f64>>(s, &e3, &p3, -(k as i32), "small-scale:"); }
+            for &k in &sf32 { seg_float::<f32, LineSegment2<f32>>(s, &e2, &p2, -(k as i32), "small-scale:"); seg_float::<f32, LineSegment3<f32>>(s, &e3, &p3, -(k as i32), "small-scale:"); }
             s.meta("scales_log2", json!({"X": sx, "f64": sf64, "f32": sf32}));
         });
     rep.section("small shapes: Ray::triangle_intersection at scale 2^-k",
-        &format!("triangle vertices and ray origins n/2^k: every ordered triple of vertices from {{0,1}}^3 x origins {{-1,0,1}}^3 (numerators) x integer directions {{-1,0,1}}^3 minus 0; k in {:?} (X), {:?} (f64), {:?} (f32). {} Violation classes carry the prefix 'small-scale:'.", sx, sf64, sf32, ray_rule),
+        &format!("triangle vertices and ray origins n/2^k: every ordered triple of vertices from {{0,1}}^3 x origins {{-1,0,1}}^3 (numerators) x integer directions {{-1,0,1}}^3 minus 0; k in {:?} (X), {:?} (f64), {:?} (f32). {} Violation classes carry the prefix 'small-scale:'; a violation on a case OUTSIDE vek's absolute-epsilon parallel guard (|e1.(d x e2)| >= 2^-52, f32 2^-23) is reported a second time with the prefix 'above-guard:' so that the known guard finding cannot mask another defect.", sx, sf64, sf32, ray_rule),
         true, false, |s| {
             require_tiers(s, &tiers, &["edge", "vertex", "miss", "parallel", "degenerate-triangle"]);
             s.require_classes(&["X/interior"]); // on this small grid interior hits have det = +-3: outside the exact float sub-space
+            require_tiers(s, &tiers, &["outside-the-epsilon-guard", "inside-the-epsilon-guard"]);
             let (verts, origins) = (cube(&[0, 1], 3), cube(&[-1, 0, 1], 3));
-            for &k in &sx { ray_section::<X>(s, &verts, &origins, &dirs, k, "small-scale:"); }
-            for &k in &sf64 { ray_section::<f64>(s, &verts, &origins, &dirs, k, "small-scale:"); }
-            for &k in &sf32 { ray_section::<f32>(s, &verts, &origins, &dirs, k, "small-scale:"); }
+            for &k in &sx { ray_section::<X>(s, &verts, &origins, &dirs, -(k as i32), "small-scale:"); }
+            for &k in &sf64 { ray_section::<f64>(s, &verts, &origins, &dirs, -(k as i32), "small-scale:"); }
+            for &k in &sf32 { ray_section::<f32>(s, &verts, &origins, &dirs, -(k as i32), "small-scale:"); }
             s.meta("scales_log2", json!({"X": sx, "f64": sf64, "f32": sf32}));
         });
+
+    // =====================================================================================================
+    // sections added by the clause-by-clause audit (out/AUDIT.md)
+
+    // ---- negative radii: the statement's "at most the radius / the sum of radii", "centre plus/minus the radius" read literally
+    let nradii: Vec<i64> = if th { vec![-10, -7, -4, -3, -2, -1, 0, 1, 2, 4, 7, 10] } else { vec![-10, -4, -1, 0, 1, 4] };
+    let (n2, n3) = if th { (c2.clone(), cube(&range(-4, 4, 2), 3)) } else { (cube(&range(-4, 4, 2), 2), cube(&[-2, 0, 2], 3)) };
+    rep.section("negative radii: contains_point, rect/aab/diameter",
+        &format!("{} Disk centres / {} Sphere centres (half-unit grids as above) x radii {:?}/2 (negative ones included) x every grid point as query, tiers f64, f32, X. A distance is never negative, so 'contains p exactly when distance <= radius' is false for every point of a negative-radius shape (oracle: r >= 0 and 4d^2 <= 4r^2 on integers); bounds: min = c - r, max = c + r, rect position c - r with extent 2r, diameter 2r, literally. Violation classes of negative-radius cases carry the prefix 'negative-radius:'. non-trivial: query differs from the centre / r != 0", n2.len(), n3.len(), nradii),
+        true, false, |s| {
+            require_tiers(s, &tiers, &["negative-radius", "boundary", "radius-negative"]);
+            contains_tier::<f64, Disk<f64, f64>>(s, &n2, &nradii, &n2, 0, "");
+            contains_tier::<f32, Disk<f32, f32>>(s, &n2, &nradii, &n2, 0, "");
+            contains_tier::<X, Disk<X, X>>(s, &n2, &nradii, &n2, 0, "");
+            contains_tier::<f64, Sphere<f64, f64>>(s, &n3, &nradii, &n3, 0, "");
+            contains_tier::<f32, Sphere<f32, f32>>(s, &n3, &nradii, &n3, 0, "");
+            contains_tier::<X, Sphere<X, X>>(s, &n3, &nradii, &n3, 0, "");
+            bounds_tier::<f64, Disk<f64, f64>>(s, &n2, &nradii, 0, "");
+            bounds_tier::<f32, Disk<f32, f32>>(s, &n2, &nradii, 0, "");
+            bounds_tier::<X, Disk<X, X>>(s, &n2, &nradii, 0, "");
+            bounds_tier::<f64, Sphere<f64, f64>>(s, &n3, &nradii, 0, "");
+            bounds_tier::<f32, Sphere<f32, f32>>(s, &n3, &nradii, 0, "");
+            bounds_tier::<X, Sphere<X, X>>(s, &n3, &nradii, 0, "");
+            s.require_classes(&["i32/radius-negative"]);
+            bounds_i32(s, &range(-3, 3, 1), &[-5, -2, -1]);
+            // i32 near the ends of the range (centre +- radius and 2*radius stay representable)
+            bounds_i32(s, &[-1_000_000_000, -7, 999_999_999], &[-1_000_000_000, 0, 1_000_000_000]);
+        });
+    rep.section("negative radii: collides_with_*",
+        &format!("every ordered pair of the same centres x every ordered pair of radii from {:?}/2: collide exactly when d <= r1 + r2, hence never when r1 + r2 < 0, and with one negative radius the sum (not the sum of magnitudes, not the squared sum) decides. Oracle: r1 + r2 >= 0 and 4d^2 <= (2r1 + 2r2)^2 on integers. non-trivial: distinct centres", nradii),
+        true, false, |s| {
+            require_tiers(s, &tiers, &["negative-radius-sum", "mixed-sign-radii", "tangent", "overlapping", "disjoint"]);
+            collides_tier::<f64, Disk<f64, f64>>(s, &n2, &nradii, 0, "");
+            collides_tier::<f32, Disk<f32, f32>>(s, &n2, &nradii, 0, "");
+            collides_tier::<X, Disk<X, X>>(s, &n2, &nradii, 0, "");
+            collides_tier::<f64, Sphere<f64, f64>>(s, &n3, &nradii, 0, "");
+            collides_tier::<f32, Sphere<f32, f32>>(s, &n3, &nradii, 0, "");
+            collides_tier::<X, Sphere<X, X>>(s, &n3, &nradii, 0, "");
+        });
+    rep.section("negative radii: collision_vector_with_*",
+        &format!("same pairs, radii {:?}/2, restricted to r1 + r2 >= 0 (tangency at a negative distance does not exist: excluded and counted) and distinct centres: after moving OTHER by the vector the centre distance is r1 + r2, also when one of the radii is negative. Same oracles and bounds as the collision_vector section. non-trivial: not already tangent", nradii),
+        true, false, |s| {
+            require_tiers(s, &tiers, &["mixed-sign-radii", "negative-radius-sum-excluded", "penetrating", "separated", "already-tangent"]);
+            cv_tier::<f64, Disk<f64, f64>>(s, &n2, &nradii, 0, "");
+            cv_tier::<f32, Disk<f32, f32>>(s, &n2, &nradii, 0, "");
+            cv_tier::<X, Disk<X, X>>(s, &n2, &nradii, 0, "");
+            cv_tier::<f64, Sphere<f64, f64>>(s, &n3, &nradii, 0, "");
+            cv_tier::<f32, Sphere<f32, f32>>(s, &n3, &nradii, 0, "");
+            cv_tier::<X, Sphere<X, X>>(s, &n3, &nradii, 0, "");
+        });
+
+    // ---- tiny and huge disks/spheres: every claim is invariant under scaling by 2^k, and so is every oracle
+    // (exact in X; in binary floating point the whole computation, sqrt included because 2k is even, scales exactly)
+    let (dx, df32): (Vec<i32>, Vec<i32>) = if th { (vec![-58, -55, -53, -52, -51, -40, -26, -13, -1, 1, 13, 26, 40], vec![-30, -26, -24, -23, -22, -12, -1, 1, 12, 20]) } else { (vec![-55, 40], vec![-26, 20]) };
+    let sradii: Vec<i64> = if th { radii.clone() } else { vec![0, 1, 4, 10] };
+    let (s2, s3) = (cube(&range(-4, 4, 2), 2), cube(&[-2, 0, 2], 3));
+    rep.section("scaled shapes: Disk/Sphere at scale 2^k",
+        &format!("centres {{-2..2}}^2 / {{-1,0,1}}^3 (25 Disk / 27 Sphere centres; thorough: additionally the full grids of the base sections, {} / {} centres, at k = -55, 40 resp. f32 -26, 20), radii {:?}/2 and query points, all multiplied by 2^k, k in {:?} (X, f64) and {:?} (f32): contains_point, collides_with_*, collision_vector_with_*, rect/aab/diameter with the same oracles (integer numerators; the verdict of a comparison does not depend on the common factor; expected values are scaled exactly). At 2^-55 the gap between a distance and a radius is far below f64 epsilon (2^-26: below f32 epsilon), so any absolute tolerance in the comparisons shows. Violation classes carry the prefix 'scaled:'. non-trivial: as in the base sections", c2.len(), c3.len(), sradii, dx, df32),
+        true, false, |s| {
+            require_tiers(s, &tiers, &["inside", "boundary", "outside", "overlapping", "tangent", "disjoint", "penetrating", "already-tangent", "separated", "radius-positive"]);
+            let run = |g2: &[P3], g3: &[P3], kx: &[i32], kf32: &[i32]| {
+                for &k in kx {
+                    contains_tier::<f64, Disk<f64, f64>>(s, g2, &sradii, g2, k, "scaled:"); contains_tier::<X, Disk<X, X>>(s, g2, &sradii, g2, k, "scaled:");
+                    contains_tier::<f64, Sphere<f64, f64>>(s, g3, &sradii, g3, k, "scaled:"); contains_tier::<X, Sphere<X, X>>(s, g3, &sradii, g3, k, "scaled:");
+                    collides_tier::<f64, Disk<f64, f64>>(s, g2, &sradii, k, "scaled:"); collides_tier::<X, Disk<X, X>>(s, g2, &sradii, k, "scaled:");
+                    collides_tier::<f64, Sphere<f64, f64>>(s, g3, &sradii, k, "scaled:"); collides_tier::<X, Sphere<X, X>>(s, g3, &sradii, k, "scaled:");
+                    cv_tier::<f64, Disk<f64, f64>>(s, g2, &sradii, k, "scaled:"); cv_tier::<X, Disk<X, X>>(s, g2, &sradii, k, "scaled:");
+                    cv_tier::<f64, Sphere<f64, f64>>(s, g3, &sradii, k, "scaled:"); cv_tier::<X, Sphere<X, X>>(s, g3, &sradii, k, "scaled:");
+                    bounds_tier::<f64, Disk<f64, f64>>(s, g2, &sradii, k, "scaled:"); bounds_tier::<X, Disk<X, X>>(s, g2, &sradii, k, "scaled:");
+                    bounds_tier::<f64, Sphere<f64, f64>>(s, g3, &sradii, k, "scaled:"); bounds_tier::<X, Sphere<X, X>>(s, g3, &sradii, k, "scaled:");
+                }
+                for &k in kf32 {
+                    contains_tier::<f32, Disk<f32, f32>>(s, g2, &sradii, g2, k, "scaled:"); contains_tier::<f32, Sphere<f32, f32>>(s, g3, &sradii, g3, k, "scaled:");
+                    collides_tier::<f32, Disk<f32, f32>>(s, g2, &sradii, k, "scaled:"); collides_tier::<f32, Sphere<f32, f32>>(s, g3, &sradii, k, "scaled:");
+                    cv_tier::<f32, Disk<f32, f32>>(s, g2, &sradii, k, "scaled:"); cv_tier::<f32, Sphere<f32, f32>>(s, g3, &sradii, k, "scaled:");
+                    bounds_tier::<f32, Disk<f32, f32>>(s, g2, &sradii, k, "scaled:"); bounds_tier::<f32, Sphere<f32, f32>>(s, g3, &sradii, k, "scaled:");
+                }
+            };
+            run(&s2, &s3, &dx, &df32);
+            // thorough: the full grids of the base sections at the two extreme scales
+            if th { run(&c2, &c3, &[-55, 40], &[-26, 20]); }
+            s.meta("scales_log2", json!({"X": dx, "f64": dx, "f32": df32}));
+        });
+    let (mx, mf64, mf32): (Vec<i32>, Vec<i32>, Vec<i32>) = if th { (vec![-30, -17, -8, -1, 1, 8, 17, 30], vec![-300, -100, -30, -1, 1, 30, 100, 300], vec![-30, -20, -1, 1, 20, 30]) } else { (vec![-30, 30], vec![-100, 100], vec![-30, 30]) };
+    let sfr: Vec<(i64, i64)> = fr.iter().copied().filter(|(k, _)| th || k % 3 != 2).collect();
+    rep.section("scaled shapes: circumference/area/surface_area/volume",
+        &format!("radii (k/{}) * 2^e for the k of the measures section ({} of them), off-origin centre (3,-7,5)*2^e, e in {:?} (X), {:?} (f64), {:?} (f32). The measures are homogeneous of degree 1, 2, 2, 3 in the radius and multiplying a binary float by a power of two is exact, so got * 2^(-e*degree) must satisfy the unscaled oracle of the measures section (X: structural token (coefficient * 2^(e*degree)) * pi). Violation classes carry the prefix 'scaled:'. non-trivial: r > 0", den, sfr.len(), mx, mf64, mf32),
+        true, false, |s| {
+            require_tiers(s, &tiers, &["radius-zero", "radius-positive"]);
+            let off: P3 = [3, -7, 5];
+            for &e in &mx { measures_tier::<X, Disk<X, X>>(s, &sfr, &off, e, "scaled:"); measures_tier::<X, Sphere<X, X>>(s, &sfr, &off, e, "scaled:"); }
+            for &e in &mf64 { measures_tier::<f64, Disk<f64, f64>>(s, &sfr, &off, e, "scaled:"); measures_tier::<f64, Sphere<f64, f64>>(s, &sfr, &off, e, "scaled:"); }
+            for &e in &mf32 { measures_tier::<f32, Disk<f32, f32>>(s, &sfr, &off, e, "scaled:"); measures_tier::<f32, Sphere<f32, f32>>(s, &sfr, &off, e, "scaled:"); }
+        });
+
+    // ---- constructors (anchors.mechanism: "Disk/Sphere constructors"; Ray::new lies inside the anchored range 725-772)
+    rep.section("constructors: Disk/Sphere::new/unit/point, Ray::new",
+        "centres from {-7,0,3,11}^3 / 2 (three distinct coordinates occur in every order) x radii {-3,0,1,2,9}/2, tiers f64, f32, X, and i32 on the integer numerators, plus the mixed instantiations Disk<i32,u8>, Sphere<f64,f32>: new(c, r) stores c and r field for field, unit(c) stores c and radius one, point(c) stores c and radius zero; Ray::new(o, d) stores o in `origin` and d in `direction` (d = the centre rotated by one lane plus (1,2,3), so it never equals o); LineSegment2/3<i32>: From<Range> then into_range keep start and end field for field (end = start rotated plus (1,2,3)). Read back through public fields, compared with ==. non-trivial: the centre has two different coordinates",
+        true, false, |s| {
+            s.require_classes(&["f64", "f32", "X", "i32", "mixed"]);
+            let cs = cube(&[-7, 0, 3, 11], 3);
+            let rs = [-3i64, 0, 1, 2, 9];
+            ctors_tier::<f64>(s, &cs, &rs);
+            ctors_tier::<f32>(s, &cs, &rs);
+            ctors_tier::<X>(s, &cs, &rs);
+            ctors_int(s, &cs, &rs);
+        });
+
+    // ---- Disk<P,E> / Sphere<P,E> with different position and extent types (rect, diameter, measures are generic in both)
+    rep.section("mixed position/extent types: rect/rect3/diameter and measures",
+        "rect/rect3/diameter on Disk/Sphere<i64,i32>, <i32,u16>, <f64,f32>, <X,u8> (P: From<E>): centres {-3..3}^d (times 1/2 for the float/X positions) x radii {0,1,2,5,100}: position = c - r per axis in P, extent = 2r per axis in E, diameter = 2r in E, all compared with == on values computed in i64. circumference/area on Disk<i32,f64>, Disk<u8,f32>, surface_area/volume on Sphere<i32,f32>, Sphere<i64,f64>: radii k/4, k = 0..=40, with the oracle of the measures section. non-trivial: r > 0",
+        true, false, |s| {
+            s.require_classes(&["rect/i64,i32", "rect/i32,u16", "rect/f64,f32", "rect/X,u8", "f64/radius-positive", "f32/radius-positive"]);
+            mixed_section(s);
+        });
+
+    // ---- huge segments, triangles and rays
+    let (lx, lf64, lf32): (Vec<i32>, Vec<i32>, Vec<i32>) = if th { (vec![1, 7, 13, 20, 30], vec![1, 7, 13, 20, 30, 45, 60], vec![1, 7, 13, 20]) } else { (vec![30], vec![60], vec![20]) };
+    rep.section("large shapes: LineSegment2/3 at scale 2^k",
+        &format!("the grids of the small-shapes section with coordinates n * 2^k, k in {:?} (X), {:?} (f64), {:?} (f32); same assertions and oracles (evaluated on the integer numerators and scaled exactly; all float operations scale exactly). Violation classes carry the prefix 'large-scale:'. non-trivial: non-degenerate segment", lx, lf64, lf32),
+        true, false, |s| {
+            s.require_classes(&["degenerate-segment", "beyond-start", "foot-at-start", "interior-foot", "foot-at-end", "beyond-end", "point-on-segment", "X/distance-exact", "f64/interior-foot", "f32/interior-foot", "f64/projected-point", "f32/projected-point"]);
+            let (e2, p2) = (cube(&[-1, 0, 1], 2), cube(&[-2, -1, 0, 1, 2], 2));
+            let (e3, p3) = (cube(&[0, 1], 3), cube(&[-1, 0, 1, 2], 3));
+            for &k in &lx { seg_exact::<LineSegment2<X>>(s, &e2, &p2, k, "large-scale:"); seg_exact::<LineSegment3<X>>(s, &e3, &p3, k, "large-scale:"); }
+            for &k in &lf64 { seg_float::<f64, LineSegment2<f64>>(s, &e2, &p2, k, "large-scale:"); seg_float::<f64, LineSegment3<f64>>(s, &e3, &p3, k, "large-scale:"); }
+            for &k in &lf32 { seg_float::<f32, LineSegment2<f32>>(s, &e2, &p2, k, "large-scale:"); seg_float::<f32, LineSegment3<f32>>(s, &e3, &p3, k, "large-scale:"); }
+        });
+    let (rx, rf64, rf32): (Vec<i32>, Vec<i32>, Vec<i32>) = if th { (vec![1, 13, 30], vec![1, 13, 30, 60], vec![1, 13, 20]) } else { (vec![30], vec![60], vec![20]) };
+    rep.section("large shapes: Ray::triangle_intersection at scale 2^k",
+        &format!("triangle vertices and ray origins n * 2^k: every ordered triple of vertices from {{0,1}}^3 x origins {{-1,0,1}}^3 x integer directions {{-1,0,1}}^3 minus 0; k in {:?} (X), {:?} (f64), {:?} (f32). {} Violation classes carry the prefix 'large-scale:'.", rx, rf64, rf32, ray_rule),
+        true, false, |s| {
+            require_tiers(s, &tiers, &["edge", "vertex", "miss", "parallel", "degenerate-triangle"]);
+            s.require_classes(&["X/interior"]);
+            let (verts, origins) = (cube(&[0, 1], 3), cube(&[-1, 0, 1], 3));
+            for &k in &rx { ray_section::<X>(s, &verts, &origins, &dirs, k, "large-scale:"); }
+            for &k in &rf64 { ray_section::<f64>(s, &verts, &origins, &dirs, k, "large-scale:"); }
+            for &k in &rf32 { ray_section::<f32>(s, &verts, &origins, &dirs, k, "large-scale:"); }
+        });
+
+    // ---- scalene triangles in general position, long and non-primitive directions, rays aimed at chosen points
+    let dmax = if th { 3 } else { 2 };
+    let aimed = aimed_cases(th, dmax);
+    rep.section("Ray::triangle_intersection: scalene triangles, aimed rays",
+        &format!("triangles v0, v0 + 4a, v0 + 4b for (v0; a; b) in {:?} (the last one collinear = degenerate) in all 6 vertex orders; target points v0 + i*a + j*b for i, j in -1..=5 (barycentric quarters: the 3 vertices, 9 points inside the edges, 3 interior points, 34 points of the plane outside the triangle); every direction d of {{-{m}..{m}}}^3 minus 0 (non-primitive and unequal components included); origin = target - t*d for t in {{-2, 0, 1, 3}}: the line meets the plane exactly at the target with parameter t unless d is parallel to the plane (then the ray lies in the plane: None). Rays are built with Ray::new. {} ({} cases per tier)", TRIS, ray_rule, aimed.len(), m = dmax),
+        true, false, |s| {
+            require_tiers(s, &["X"], &ray_classes);
+            require_tiers(s, &["f64", "f32"], &["interior", "edge", "vertex", "miss", "parallel", "degenerate-triangle", "hit-at-negative-t", "hit-at-origin"]);
+            ray_list::<X>(s, &aimed, 0, "aimed:");
+            ray_list::<f64>(s, &aimed, 0, "aimed:");
+            ray_list::<f32>(s, &aimed, 0, "aimed:");
+        });
+    if th {
+        // ---- thorough only: the base ray grid with vertices of both signs
+        rep.section("Ray::triangle_intersection: vertices of both signs",
+            &format!("every ORDERED triple of vertices from {{-1,0,2}}^3 x origins {{-2,0,1}}^3 x directions {{-1,0,1}}^3 minus 0, X and the exact float sub-space. {}", ray_rule),
+            true, false, |s| {
+                require_tiers(s, &tiers, &ray_classes);
+                let (verts, origins) = (cube(&[-1, 0, 2], 3), cube(&[-2, 0, 1], 3));
+                ray_section::<X>(s, &verts, &origins, &dirs, 0, "");
+                ray_section::<f64>(s, &verts, &origins, &dirs, 0, "");
+                ray_section::<f32>(s, &verts, &origins, &dirs, 0, "");
+            });
+    }
 
     std::process::exit(rep.finish());
 }
